@@ -12,1225 +12,1333 @@ Definition show_fres (r : fres) : string :=
   end.
 Definition check (rs : list rune) : string := digest (show_fres (format_res rs)).
 Definition full (rs : list rune) : string := show_fres (format_res rs).
-Eval vm_compute in ("<<<M822>>>" ++ check (runes_of_ascii "packet u { @tag( 007 )
-    @calculatedFrom(
-    """"
-    ) match i64_ as roots{ [
-// `tick` ""quote"" 'q'
-// packet A { u8 x, }
-""`tick`"" ,
-""1"" , 0,
-3
-// " ++ [27880; 37322]%N ++ runes_of_ascii "
-// c
-] :
-rootA
-//x
-// c
-00:
-pack [ 0123456789, 0123456789 , ""1""
-    ,	255 ]
-: /// triple
-msg_type ,
-10
-    :chars ""it's"": o
-, /// triple
-} ,
-BodyLength{ char[ 255 // " ++ [128512]%N ++ runes_of_ascii " emoji
-] metadata`
-` ,
-} , options1 { match  asx
-    // c
-    as packetx{ ""abc""/// triple
-: u128 [ 3
-,
-4294967296 ,	"""" ,
-""" ++ [28040; 24687]%N ++ runes_of_ascii """,
-    4294967296 ]
-: leftPad , 0 :
-Header , """ ++ [233]%N ++ runes_of_ascii "t" ++ [233]%N ++ runes_of_ascii """
-:  T , } ,
-repeat char[] Z9_ `{ , }` ,
-    }
-,
-@calculatedFrom( ""packet"" ) @calculatedFrom(
-""x y"")@tag(255  ) leftPad
-{ repeat leftPad
-{
-    float32 falsey @lengthOf(falsey ) `a\` ,	zchar[ 0 ] matchKey ,zchar[ 4294967296
-    ] a1, match packetx	as // @lengthOf(
-u {  [ 00 ,	""abc"" , """ ++ [233]%N ++ runes_of_ascii "t" ++ [233]%N ++ runes_of_ascii """ ,00,// " ++ [27880; 37322]%N ++ runes_of_ascii "
-""a\\""	, ""{,}"" ]
-    : BodyLength ,""" ++ [233]%N ++ runes_of_ascii "t" ++ [233]%N ++ runes_of_ascii """
-    /// triple
-    :asx  , [
-    ""a	b"" ,007 ]
-    :
-body
-    /// triple
-    ,[ 00 ,0123456789 ] :
-crc
+Eval vm_compute in ("<<<M4489>>>" ++ check (runes_of_ascii "root packet rootA {
+    @calculatedFrom("""")
+    match packetx as x_y_z {
+        // `tick` ""quote"" 'q'
+        """ ++ [28040; 24687]%N ++ runes_of_ascii """ : crc,
+        ""a	b"" : i8i8,
+        ""it's"" : msg_type,
+        10 : string_,
+        0123456789 : int,
+    },
+    zchar[0123456789] _x `say ""hi""`,
+    @lengthOf(lengthOf)
+    repeat chars {
+        repeat i16 u,
+    },
+    i16 u @lengthOf(Pad) `say ""hi""`,
+    string u8x @calculatedFrom(""\n"") `" ++ [233]%N ++ runes_of_ascii "`,
+    MetaDataX `" ++ [233]%N ++ runes_of_ascii "`,
+    char[] Header @lengthOf(Foo) `u8 x,`,//
 }
-    ,} , }
-    , repeat uint8x o
-`doc` , @tag(
-65535 )u16 Logon  @lengthOf( uint8x	)
-    `a\`, f32a
-    { repeat  char[]
-matchKey// " ++ [128512]%N ++ runes_of_ascii " emoji
-`
-` , zchar[ 4294967296 ] i64_,
-    // packet A { u8 x, }
-    repeat lengthOf {	repeat i16 matchKey	, u8 falsey ,
-i32 Pad @lengthOf(u8x )
-    `` ,
-    charz
-`crlf
-line`,}
-, packetx {int64 trueish
-, char[42	]  u @lengthOf(u )`// not a comment`,repeat
-char[ 1 ]i8i8 ,
-    match x_y_z as u8x {
-    [
-    ""\n""
-//
-// " ++ [27880; 37322]%N ++ runes_of_ascii "
-] : calculatedFrom } , } ,
-    } , @leftPad ( '0'
-    //x
-    )
-    As @calculatedFrom(
-""it's""
-)	, @calculatedFrom(""CRC32""
-)x_y_z
-@lengthOf( crc
-    ) , @leftPad
-('0'	) @calculatedFrom( ""`tick`"" )@tag( 10)char[ 42 ]Z9_ @calculatedFrom(""abc"" ) // " ++ [128512]%N ++ runes_of_ascii " emoji
-,}
-    MetaData
-//	t
-/// triple
-repeatCount // trailing space 
-{ i8
-    u `tab	here`, char[ 255
-]
-    u,
-    // @lengthOf(
-    u32
-    msg_type`doc`
-,i64_ _x	,
-}
-options  {
-    repeatCount=255 ;x_y_z = ' ' ; charz = uint8 ; Packet = false BodyLength=true
-;
-    } options { asx
-    // @lengthOf(
-    =""" ++ [128512]%N ++ runes_of_ascii """uint8x =char[  4294967296 ]
-// " ++ [27880; 37322]%N ++ runes_of_ascii "
-// a // b
-; u = '0' }
-// trailing space 
-")).
-Eval vm_compute in ("<<<M390>>>" ++ check (runes_of_ascii "packet calculatedFrom {
-    i8 i8i8 ,//
-@tag(3 )// trailing space 
-repeat	uint16 u128 , u64 x_y_z``,@tag( 00
-    ) @leftPad ( // " ++ [128512]%N ++ runes_of_ascii " emoji
-' ') u
-//x
-// trailing space 
-{//x
-match // `tick` ""quote"" 'q'
-uint8x as i64_{007 : As
-    ,
-007
-    : len
-, 42//
-:
-asx , 10 :
-    // trailing space 
-    BodyLength 0123456789 :
-calculatedFrom // " ++ [128512]%N ++ runes_of_ascii " emoji
-,
-[ 3 ,
-""it's""  ,""\n"" // trailing space 
-, """ ++ [28040; 24687]%N ++ runes_of_ascii """ , 0123456789
-, 42  ,
-255 ,
-""" ++ [233]%N ++ runes_of_ascii "t" ++ [233]%N ++ runes_of_ascii """] :
-//x
-//	t
-tag ,
-    } // trailing space 
-,
-    match pack
-    // `tick` ""quote"" 'q'
-    as charz {""CRC32"" :int
-}
-,len
-@calculatedFrom(
-// a // b
-/// triple
-""packet"" )  , }
-,}
-    packet calculatedFrom
-{	repeat packetx{ repeat string
-    options1 , }
-    ,int64 msg_type, @tag( 3 ) leftPad float
-    , match body as /// triple
-Pad { 255:calculatedFrom , [
-""it's""
-, """" ,
-""CRC32""	,
-4294967296 , 10  ,
-""" ++ [233]%N ++ runes_of_ascii "t" ++ [233]%N ++ runes_of_ascii """  ,
-0123456789
-    ]	: trueish 10 :Z9_ , [
-    ""a\\""
-    ] : roots	,
-    // c
-    0123456789
-: rootA , },
-}options
-{	options1=0123456789 } options
-{  }// " ++ [27880; 37322]%N ++ runes_of_ascii "
-root
-packet asx{ @lengthOf(	a1 ) match u8x as lengthOf
-{
-// `tick` ""quote"" 'q'
-//x
-[ 00, 00 ]:
-    Packet
-    ,  [  ""CRC32""
-    /// triple
-    , ""abc""  ,
-//x
+
 // c
-3 ]	:x_y_z[""" ++ [28040; 24687]%N ++ runes_of_ascii """ ,
-7	] :
-    packetx""a	b"" :
-    As""a	b"" : x_y_z , ""// no comment"": u,
-} , zchar[ 0
-// trailing space 
-//x
-]i64_ ,
-match stringy as // " ++ [27880; 37322]%N ++ runes_of_ascii "
-zchar
-    { [ ""// no comment"" ,10
-,1,  """ ++ [128512]%N ++ runes_of_ascii """ ] : Foo
-, } , @rightPad
-    // trailing space 
-    ( '\x00') // trailing space 
-float
-,u64	Foo `say ""hi""`
-, matchKey, // packet A { u8 x, }
-uint16 tag
-    `crlf
-line` ,string // a // b
-u8x
-`two words` ,  string pack @calculatedFrom( ""packet""  )
-, @calculatedFrom( ""`tick`"" //x
-) float64 Logon , }
 // " ++ [128512]%N ++ runes_of_ascii " emoji
-")).
-Eval vm_compute in ("<<<M1322>>>" ++ check (runes_of_ascii "options { rootA = """" BodyLength = 0123456789 ; roots =
-    string options1=
-' ' } root packet
-int {repeat zchar[ 00	]
-Logon, repeat	uint16
-    //	t
-    body `// not a comment` , @calculatedFrom(	""a\""b"")repeat
-    string MetaDataX
-    `a\` , string lengthOf `" ++ [28040; 24687; 31867; 22411]%N ++ runes_of_ascii "` ,
-    @tag( 3 ) trueish calculatedFrom , //
-} root
-packet i64_ {
-zchar[ 007
-] //x
-rootA
-    `" ++ [28040; 24687; 31867; 22411]%N ++ runes_of_ascii "` , @leftPad ( ' ')
-@calculatedFrom(""a\\""	) @calculatedFrom(
-    // @lengthOf(
-    ""a\""b"")
-repeat	f64 trueish	`" ++ [233]%N ++ runes_of_ascii "`, repeat int { match msg_type as asx
-    {"""" : u128 , [ //
-""1"" ,
-//	t
-// trailing space 
-""\" ++ [233]%N ++ runes_of_ascii """ ]
-: options1 ,  ""x y""	: u8x,
-""// no comment"" : BodyLength  , [
-    7	,  ""a\""b""	, 4294967296 ]
-: asx ,
-} , crc @calculatedFrom(  """" )  ,
-    // `tick` ""quote"" 'q'
-    match metadata as lengthOf
-{
-[4294967296
-, ""a	b"",""packet"", ""// no comment"" ]
+packet repeatCount {
+    @tag(7)
+    char[] x_y_z `it's`,
+    @calculatedFrom(""`tick`"")
+    repeat o,
+    @lengthOf(pack)
+    @lengthOf(u128)
+    @lengthOf(stringy)
+    match zchar as MetaDataX {
+        [""// no comment"", 0] : options1,
+        [""a	b"", ""`tick`"", """ ++ [233]%N ++ runes_of_ascii "t" ++ [233]%N ++ runes_of_ascii """, 7, 0123456789] : string_,
+        ""a\""b"" : len,
+        ""a\\"" : MetaDataX,
+    },
+    u8x {
+        repeat chars MetaDataX `two words`,
+        repeat Header len ``,
+        pack {
+            u16 asx @calculatedFrom(""`tick`"") `line1
+            line2`,
+            f64 string_,
+            float32 zchar @lengthOf(i8i8),
+            As @lengthOf(_x) `u8 x,`,
+        },
+        int32 roots `doc`,
+    },
+}
+
+packet As {
+    @lengthOf(leftPad)
+    @calculatedFrom("""")
+    x_y_z @lengthOf(i8i8) `" ++ [233]%N ++ runes_of_ascii "`,
+    repeat float32 Z9_,// `tick` ""quote"" 'q'
+    pack,
+    msg_type,// `tick` ""quote"" 'q'
+    @rightPad('0')
     // a // b
-    : repeatCount
-    // c
-    , }
     // @lengthOf(
-    , u128
-    { crc ,repeat options1  , uint64 BodyLength ,matchKey
-    `
-` ,
-} ,}
-    , @lengthOf(zchar ) int8 lengthOf `say ""hi""`  , }	root packet pack  {	@calculatedFrom( ""a	b"" )
-    // " ++ [27880; 37322]%N ++ runes_of_ascii "
-    Pad, @calculatedFrom( ""packet"" ) match u as leftPad
-    { [ ""{,}""]
-:// `tick` ""quote"" 'q'
-A""{,}"" : u128 [  ""1""
-    ,007 ]
-:  a1
-    ,
-[ ""1"" ] :
-Packet
-4294967296:
-    i8i8 , 00 :
-// " ++ [128512]%N ++ runes_of_ascii " emoji
-// @lengthOf(
-roots
-,
-//
-// packet A { u8 x, }
-}	,//
-char[0123456789  ] calculatedFrom`say ""hi""`
-,	uint8 int @calculatedFrom(
-    ""a\\""
-),Packet pack,// c
-}
-")).
-Eval vm_compute in ("<<<M1283>>>" ++ check (runes_of_ascii "packet
-u
-{ float64 A @calculatedFrom(
-    // @lengthOf(
-    ""it's"" // packet A { u8 x, }
-) ,  string roots  , @rightPad (// packet A { u8 x, }
-'\x00' ) char[]int @lengthOf( // a // b
-metadata ) , // trailing space 
-u8x {
-    int
-{  f64
-    Pad
-,asx{
-repeat tag `two words` ,rootA , u16 matchKey `
-` ,
-} , repeat
-roots { // @lengthOf(
-options1 @calculatedFrom( ""a\""b"" // " ++ [27880; 37322]%N ++ runes_of_ascii "
-)
-    ,
-char[]
-    chars
-, } , float64 zchar ,
-    }
-    , // c
-} , uint16 leftPad, uint8 f32a @lengthOf( i8i8 ) , repeat
-float64 stringy
-, i8i8
-{roots@lengthOf( repeatCount ) , }
-    ,
-repeat matchKey	, @leftPad	(' ' ) match	int // @lengthOf(
-as trueish{
-    """": a1
-    ,00 : a1,
-1 : crc , }
-,
-    // trailing space 
-    } root
-    packet f32a
-    // trailing space 
-    {@tag(0 ) // " ++ [27880; 37322]%N ++ runes_of_ascii "
-zchar[ 4294967296 ]
-tag
-    , @tag(
-    4294967296
-) match	uint8x  as calculatedFrom {	""""  :BodyLength""a\\"" : MetaDataX, """ ++ [233]%N ++ runes_of_ascii "t" ++ [233]%N ++ runes_of_ascii """ : u128,
-    } /// triple
-,
-    } options {
-x = i8 x =
-' '
-    x_y_z='\x00'zchar=	""" ++ [128512]%N ++ runes_of_ascii """// c
-;
-BodyLength = float32
-    ; }
-// packet A { u8 x, }
-//
-root packet
-    Packet { }
-MetaData // a // b
-roots { zchar u8x /// triple
-`
-` ,// trailing space 
-char[ 42 //x
-]	uint8x ,
-//
-// " ++ [128512]%N ++ runes_of_ascii " emoji
-asx lengthOf`// not a comment` ,
-Packet stringy
-, repeatCount len``
-, } // c")).
-Eval vm_compute in ("<<<M3847>>>" ++ check (runes_of_ascii "MetaData falsey {
-    i8 Logon,
-    len metadata `doc`,
+    u16 crc,
+    @lengthOf(chars)
+    repeat x `it's`,
 }
 
-MetaData Foo {
-    char[65535] calculatedFrom `
-        `,
-    matchKey zchar,
-    u stringy `
-        `,
-    MetaDataX u `say ""hi""`,
-}
-
-packet msg_type {
-    @lengthOf(Z9_)
-    @lengthOf(x)
-    @tag(0)
-    calculatedFrom {
-        msg_type @calculatedFrom(""CRC32"") `say ""hi""`,
-        repeat matchKey {
-            repeat T {
-                char[1] T,
-                repeatCount `line1
-                                line2`,
-                match int as x {
-                    ""packet"" : options1,
-                    00 : calculatedFrom,
-                    00 : falsey,
-                },
-            },
-            char[] uint8x,
-            match Packet as falsey {
-                7 : f32a,
-                // a // b
-                10 : u,
-                1 : Header,
-                [0, ""packet"", ""a	b""] : o,
-                0123456789 : chars,
-            },
-            zchar[65535] Foo,
-        },
-    },
-}// packet A { u8 x, }
-
-root packet u {
-    @tag(007)
-    i32 stringy @lengthOf(a1) `{ , }`,
-}
-
-MetaData string_ {
-    uint64 chars `crlf
-        line`,
-    char[3] u8x `a\`,
-}")).
-Eval vm_compute in ("<<<M1338>>>" ++ check (runes_of_ascii "
-packet
-    crc { //x
-u16 // " ++ [128512]%N ++ runes_of_ascii " emoji
-charz , @leftPad (' ' )match
-    rootA as // packet A { u8 x, }
-BodyLength{
-    ""`tick`"":
-    u , }
-,
-@tag( 1 ) Logon `" ++ [233]%N ++ runes_of_ascii "`, uint16 metadata
-`// not a comment` , //
-@rightPad  ( )char[00
-] body
-// @lengthOf(
-// trailing space 
-,  BodyLength {	match f32a
-as // packet A { u8 x, }
-calculatedFrom
-// a // b
-// " ++ [128512]%N ++ runes_of_ascii " emoji
-{255 :
-len , 65535 :i8i8
-// " ++ [128512]%N ++ runes_of_ascii " emoji
-// " ++ [27880; 37322]%N ++ runes_of_ascii "
-007	:
-    uint8x , }
-    //
-    , repeat repeatCount
-// @lengthOf(
-/// triple
-{ repeat	char[ 1 ] string_ , repeat
-string roots , falsey len //x
-`
-` , repeat i64
-calculatedFrom ,
-    }, u16//
-leftPad @calculatedFrom(
-    ""x y"" //	t
-)
-`// not a comment` , } // `tick` ""quote"" 'q'
-, repeat zchar {
-f32 packetx @lengthOf(
-asx
-)
-    , a1
-stringy
-    , string_
-BodyLength
+packet body {
+    @calculatedFrom(""" ++ [28040; 24687]%N ++ runes_of_ascii """)
+    T @lengthOf(u8x),
+    @tag(3)
     // packet A { u8 x, }
-    `" ++ [233]%N ++ runes_of_ascii "`
-    , },@rightPad
-( '0' )repeat
-o{repeat float f32a ,
-char
-packetx,char[] stringy// " ++ [27880; 37322]%N ++ runes_of_ascii "
-, } , } root
-packet float // trailing space 
-{ uint16
-    body  @lengthOf( body ) , match a1 as Header
-{""1""
-    : Z9_ , } , } options	{
-MetaDataX	= 255	; charz = '0' ; matchKey = ""`tick`""
-; rootA
-=//x
-'0'  ; }
-")).
-Eval vm_compute in ("<<<M1185>>>" ++ check (runes_of_ascii "packet T { x repeatCount
-`tab	here` ,
-    repeat	a1 `a\`
-, a1 @calculatedFrom( ""CRC32"" ),	repeat string msg_type`// not a comment`, // trailing space 
-} packet
-// @lengthOf(
-// trailing space 
-uint8x {zchar[65535 ] //x
-roots,	i64_ stringy
-,zchar[ 0123456789 ]
-tag `" ++ [28040; 24687; 31867; 22411]%N ++ runes_of_ascii "` , @tag( 42) match
-i8i8 as Header {	[ ""// no comment"" ,	""abc"" // c
-,
-    255 ,
-65535/// triple
-] : charz , 00 : /// triple
-Z9_,} ,
-uint8 int	@calculatedFrom(
-    ""`tick`"") ,@lengthOf( asx ) match crc as trueish {
-[ """" ,""// no comment""
-    ,
-42 ,
+    u32 u @lengthOf(msg_type),
+    @calculatedFrom(""" ++ [128512]%N ++ runes_of_ascii """)
+    repeat char[10] A,
+    x {
+        string o,
+        match Pad as rootA {
+            ""packet"" : matchKey,
+        },
+        u64 x_y_z,
+        char[] leftPad @lengthOf(float),/// triple
+    },
+    repeat uint8x falsey `" ++ [233]%N ++ runes_of_ascii "`,
+    @lengthOf(Z9_)
+    u8 f32a,
+    @tag(0123456789)
     // @lengthOf(
-    ""packet""
-    ]	: chars , 0 :
-// packet A { u8 x, }
-//
-x
-""packet"" : crc ,
-} ,@calculatedFrom( ""{,}"" // a // b
-)repeatCount ,
-@tag( 7 ) BodyLength @calculatedFrom(
-""a	b""
-) ,	repeat u32 i64_ , }
-packet
-f32a
-{@tag(
-    //x
-    42
-    ) @tag( 10 ) string MetaDataX @calculatedFrom(""" ++ [28040; 24687]%N ++ runes_of_ascii """ // " ++ [27880; 37322]%N ++ runes_of_ascii "
-)
-    ,
-    //	t
-    crc {
-a1 // a // b
-@calculatedFrom( ""a\\"" ) `crlf
+    // `tick` ""quote"" 'q'
+    u8 matchKey ``,
+    Pad trueish `say ""hi""`,
+}")).
+Eval vm_compute in ("<<<M1022>>>" ++ check (runes_of_ascii "packet T
+{
+repeat	zchar[007 ] x_y_z  ,repeat Logon{ repeat	f32a `// not a comment` , string uint8x `crlf
 line`
-,
-    repeat zchar[10] A  , } , // " ++ [27880; 37322]%N ++ runes_of_ascii "
-match Packet	as Pad // a // b
-{ ""CRC32""
-: msg_type
-, } ,
-repeat string A `doc` ,}
-")).
-Eval vm_compute in ("<<<M3526>>>" ++ check (runes_of_ascii "options {
-    StringPrefixLenType = u32;
-    ArrayPrefixLenType = u8;
-    FixedStringPadFromLeft = false;
-}
-packet Logon {
-    i8 venue,
-    int16 f1,
-    zchar[8] Acct,
-    repeat InNote16 {
-        InQty73 {
-            float32 tag7,
-        },
-        f32 Acct,
-        zchar[5] sym,
-    },
-    uint16 Side2,
-    i32 lastPx,
-}
-packet Fill {
-    repeat InOrderid15 {
-        zchar[8] sym,
-        repeat char[2] OrderId,
-        repeat Logon,
-        InQty82 {
-            char[] Tail,
-            repeat Logon,
-            float64 price,
-            f64 Side2,
-        },
-        char[12] venue,
-        char[4] Px,
-    },
-    @rightPad('0') char[2] venue,
-    InPrice99 {
-        InAcct72 {
-            u8 pad0,
-        },
-        u32 OrderId,
-        Logon,
-    },
-}
-root packet Reject {
-    zchar[9] msgKind,
-    u32 venue,
-    u16 seqNo @lengthOf(Body),
-    match venue as Body {
-        57 : Fill,
-        8 : Logon,
-    },
-    u16 Tail @calculatedFrom(""CR\
-C32""),
-}
-")).
-Eval vm_compute in ("<<<M101>>>" ++ check (runes_of_ascii "MetaData
-    asx
-{ }
-    options{
-body =
-//x
-// @lengthOf(
-char[] ;// @lengthOf(
-repeatCount =true ;
-    packetx= ""a\""b""; float
-=
-""x y"" ; zchar
-    // @lengthOf(
-    = ""\" ++ [233]%N ++ runes_of_ascii """ ; } MetaData _x{
-u16 falsey  `` , } root packet
-    metadata {  }	packet Foo { repeat
-    // trailing space 
-    u128
-    , @tag(// trailing space 
-7
-) uint16
-MetaDataX
-    , @tag(1 )
-    /// triple
-    falsey `say ""hi""` , @rightPad ( //	t
-) @tag(3 ) u , @lengthOf( roots// " ++ [128512]%N ++ runes_of_ascii " emoji
-) match body as repeatCount
-{ ""CRC32"" // " ++ [27880; 37322]%N ++ runes_of_ascii "
-: asx  , 42	:  msg_type
-} ,// packet A { u8 x, }
-stringy {repeat char[
+, }//	t
+,	int64 len `// not a comment` ,match
+repeatCount as
+    // " ++ [27880; 37322]%N ++ runes_of_ascii "
+    x_y_z
+{ 00
+    :
+    packetx , [ ""CRC32""
+, """ ++ [128512]%N ++ runes_of_ascii """ ] : metadata
+, 00// `tick` ""quote"" 'q'
+: // trailing space 
+metadata
+    , }	, repeat
+msg_type{ falsey// c
+{ repeat len { match float as stringy
+{
     // c
-    3
-] uint8x ,	match
-Logon
-as	A{ ""abc"" :i8i8 , }  ,match BodyLength as len
-    { [0123456789 ,
+    [
 //
-// @lengthOf(
+// " ++ [128512]%N ++ runes_of_ascii " emoji
+007 ,	""packet""  ,
 007
-    ,4294967296,""{,}""
-]:// " ++ [128512]%N ++ runes_of_ascii " emoji
-Foo , } //	t
-, } , @leftPad ( '0'  ) uint8x
-@lengthOf(i8i8) ,//	t
-_x
-    {repeat x  `line1
-line2` , }, @tag( 42 )
-falsey
-    // trailing space 
-    u128 // trailing space 
-, int64 MetaDataX ,}
+, ""\n"",""abc""
+    ,1 , 4294967296 ]: // " ++ [128512]%N ++ runes_of_ascii " emoji
+matchKey ,
+42 :f32a// packet A { u8 x, }
+,
+[ 10
+// @lengthOf(
+// c
+,	""a\\""	]:a1
+//
+// " ++ [128512]%N ++ runes_of_ascii " emoji
+,
+    65535 : tag// trailing space 
+, // `tick` ""quote"" 'q'
+} , } // " ++ [27880; 37322]%N ++ runes_of_ascii "
+, } ,u64 _x`two words` //x
+, pack  , } , repeat	As//
+{
+repeat string
+    pack , uint8// c
+leftPad
+@lengthOf( As )
+, string options1
+@calculatedFrom( ""// no comment"" /// triple
+) `" ++ [28040; 24687; 31867; 22411]%N ++ runes_of_ascii "`
+    ,  u8 leftPad
+    @lengthOf( options1) ,}
+    // @lengthOf(
+    , }//
+packet float
+    { @tag( 42
+) //
+repeat int64 float
+    `a\` , @calculatedFrom(	""// no comment"" )	repeat i64_
+    packetx  , match lengthOf as // a // b
+falsey // @lengthOf(
+{ [42 , ""\" ++ [233]%N ++ runes_of_ascii """,10 , 10
+    ,
+007 , ""abc"" , 1	, 7] : metadata //	t
+, }	, repeat	int ,
+    repeatCount
+, zchar[ 255
+] x
+    @lengthOf(A
+// c
+// @lengthOf(
+)	, @leftPad (
+' '	) @lengthOf(
+    o
+)
+    @rightPad
+    (
+'\x00'
+)
+// a // b
+// @lengthOf(
+repeat float64 leftPad
+    , @leftPad (  '0') match	i8i8 as
+    // @lengthOf(
+    charz
+{ """ ++ [28040; 24687]%N ++ runes_of_ascii """ :roots , } , @calculatedFrom(
+/// triple
+// packet A { u8 x, }
+""abc"" )
+    repeat zchar[
+    00 ] matchKey , // packet A { u8 x, }
+uint16
+    /// triple
+    string_`doc`  , }
+//x
 ")).
-Eval vm_compute in ("<<<M3653>>>" ++ check (runes_of_ascii "  options {	msg_type
-    = int64
-
-; 	 // `tick` ""quote"" 'q'
-      tag// c
-      =
-	// `tick` ""quote"" 'q'
-	// " ++ [128512]%N ++ runes_of_ascii " emoji
-  true
-falsey
-    =' '
-	;}
-    MetaData	float 
-	    // a // b
-  /// triple
-		{
-
-chars pack
-,o Pad
-
-    ,  // `tick` ""quote"" 'q'
-  rootA
-int
-, 	 // `tick` ""quote"" 'q'
-	  i64
-
+Eval vm_compute in ("<<<M189>>>" ++ check (runes_of_ascii "packet i64_ { match
+    BodyLength as u8x {
+[ 0123456789 ]: leftPad ""{,}"" :	lengthOf	,
+007 :	A, [  ""a\""b"" ] :float , //x
+} , @calculatedFrom( // `tick` ""quote"" 'q'
+""" ++ [233]%N ++ runes_of_ascii "t" ++ [233]%N ++ runes_of_ascii """ )// a // b
+body
+u8x
+    , packetx`say ""hi""`, // @lengthOf(
+zchar[
+    42 ]MetaDataX `line1
+line2`
+    ,
+    f32 // @lengthOf(
+matchKey, roots{
+    // " ++ [27880; 37322]%N ++ runes_of_ascii "
+    u128 @lengthOf( T ) , char[
+// " ++ [128512]%N ++ runes_of_ascii " emoji
+// packet A { u8 x, }
+42
+    ]	x_y_z	@calculatedFrom( """" ) ,repeat float64 stringy// " ++ [128512]%N ++ runes_of_ascii " emoji
+`` ,
+    }
+,u16 // @lengthOf(
+metadata
+    `tab	here` ,@rightPad	( '0'
+    // " ++ [128512]%N ++ runes_of_ascii " emoji
+    )
+@tag( 7 )
+// " ++ [27880; 37322]%N ++ runes_of_ascii "
+// " ++ [27880; 37322]%N ++ runes_of_ascii "
+repeat uint16 // @lengthOf(
+x_y_z `say ""hi""`, repeat
+    roots{ // a // b
+Packet {float{ repeat asx , asx
+Foo
+    , }
+,
+    }	,} ,@tag( 42 )//x
+u `line1
+line2` , // `tick` ""quote"" 'q'
+}  packet int { } options {
+    // `tick` ""quote"" 'q'
     Logon
-, 
-char[ 00
-
-    ] 
-lengthOf 
-`two words`
+    = ""{,}"" ; } packet	As{// packet A { u8 x, }
+@calculatedFrom( // @lengthOf(
+"""" ) @rightPad ( '\x00'
+// " ++ [128512]%N ++ runes_of_ascii " emoji
+//	t
+) @leftPad (
+'0' ) repeat Logon
+f32a	, @lengthOf(
+// a // b
+// a // b
+rootA ) @tag(42 )
+    @lengthOf(
+// " ++ [128512]%N ++ runes_of_ascii " emoji
+//
+u
+//	t
+// a // b
+)repeat o u8x `u8 x,` , @tag( 7) zchar[
+    //x
+    42] asx @lengthOf(
+    trueish ) , @lengthOf( trueish ) int16
+stringy
 ,
-    u128
-u8x `// not a comment`
+zchar f32a
+    `two words` , string u8x@calculatedFrom( ""\n""
+    )  , _x `
+` , @lengthOf( i8i8  ) i64_@lengthOf(
+    uint8x )
+    , uint32 rootA `it's` , }
+")).
+Eval vm_compute in ("<<<M4385>>>" ++ check (runes_of_ascii "
 
-,
+  root 
+packet o 
+{ @leftPad 
+        // " ++ [128512]%N ++ runes_of_ascii " emoji
+//x
+    ( 
+'0'
 
-    }  MetaData
-    packetx
-	{
+)
+	u16
+    Pad ,
+}
+	packet  string_
+{match
 
-    }root
-    packet
+    o	as 
+// c
+	  chars{ [3
+	,
+""" ++ [128512]%N ++ runes_of_ascii """	// trailing space 
+	] 
+:  _x 
+,}
+,char[]
+rootA @lengthOf( 
+f32a	)
+    `it's` ,
+    @leftPad
+( 
+    // " ++ [128512]%N ++ runes_of_ascii " emoji
+  // a // b
+	) // packet A { u8 x, }
 
-    uint8x {  @lengthOf(
-    matchKey)
-MetaDataX {
-	o{
+repeat metadata  //x
+    ,@calculatedFrom( ""it's""
+	// trailing space 
+    // `tick` ""quote"" 'q'
 
-    repeat	uint16	i64_ ,uint64
+)
+zchar[ 
+      // trailing space 
+	3
 
-msg_type  @calculatedFrom(""""
+    ]
+i8i8  @lengthOf(
+options1
+)	`line1
+line2`,
 
-    ) , }
-
-    ,	//
-		repeat
-i64 BodyLength `u8 x,`
-	,	char[]	Z9_  ,
-
-    },  //
-	char[ 3 ]  stringy 
-,  @lengthOf(
-
-uint8x)  @calculatedFrom( ""abc""
-) A
-`" ++ [28040; 24687; 31867; 22411]%N ++ runes_of_ascii "` ,
-    i32 msg_type, 
-i8 f32a 
-@lengthOf(
-	falsey
-	)
-
-, @calculatedFrom( 
-""CRC32""  )u8
+    }root  packet 
+metadata	{	match
 
     MetaDataX
-
-    @calculatedFrom(""`tick`"" ),
-    }
-")).
-Eval vm_compute in ("<<<M4109>>>" ++ check (runes_of_ascii "packet stringy {
-    @tag(1)
-    Logon @lengthOf(roots),
-    @tag(4294967296)
-    repeat leftPad {
-        match metadata as u8x {
-            4294967296 : pack,
-            ""CRC32"" : f32a,
-        },
-    },
-    match Logon as float {
-        [""// no comment""] : roots,
-        0123456789 : Pad,
-    },
-    repeat Foo {
-        matchKey {
-            zchar[4294967296] repeatCount `{ , }`,
-        },
-        uint64 int @lengthOf(float),
-        match asx as trueish {
-            ""// no comment"" : lengthOf,
-            10 : As,
-            3 : calculatedFrom,
-            [7, 4294967296] : leftPad,
-            4294967296 : BodyLength,
-        },
-    },
-    i8 Packet,
-    @calculatedFrom(""" ++ [128512]%N ++ runes_of_ascii """)
-    Logon o,
-    repeat u64 asx,
-    @calculatedFrom(""a\""b"")
-    repeat int8 MetaDataX,
-    @calculatedFrom(""abc"")
-    uint64 tag `line1
-    line2`,
-}")).
-Eval vm_compute in ("<<<M896>>>" ++ check (runes_of_ascii "options
-/// triple
-// @lengthOf(
-{ o = '\x00';
-} packet tag {int16
-    falsey// trailing space 
-`two words`
-,
-    /// triple
-    T	,
-}  packet asx {
-match T as	falsey
-    {7
-    :  x , } , zchar[ 4294967296] matchKey
-    @calculatedFrom( // `tick` ""quote"" 'q'
-""`tick`"")
-`" ++ [233]%N ++ runes_of_ascii "` , @lengthOf(	calculatedFrom ) // " ++ [128512]%N ++ runes_of_ascii " emoji
-crc {
-repeat A
-{	msg_type  ,	repeat
-    char[] zchar
-    `{ , }` ,  u16 pack , // " ++ [128512]%N ++ runes_of_ascii " emoji
-u8 metadata @lengthOf( // a // b
-leftPad ) `" ++ [28040; 24687; 31867; 22411]%N ++ runes_of_ascii "` , } , }
-, msg_type {
-    repeat
-Foo{
-    match Foo as  Pad// packet A { u8 x, }
-{
-    [ 65535 ] : //	t
-charz ,[""`tick`"" ] :o
-    ,
-    255 :pack
-    , },
-    char[]	packetx , zchar[7	] i8i8 , } , //	t
-}
-, i8 chars , } root packet metadata// `tick` ""quote"" 'q'
-{  match uint8x as
-    u8x{ 65535 :
-x_y_z ,} ,}MetaData leftPad { i32 u128 , } // " ++ [27880; 37322]%N)).
-Eval vm_compute in ("<<<M4113>>>" ++ check (runes_of_ascii "packet leftPad {
-    matchKey crc,
-    @lengthOf(u128)
-    repeat char[007] a1 `
-    `,
-    repeat Z9_ _x,
-    @tag(42)
-    @lengthOf(body)
-    @lengthOf(uint8x)
-    repeat As {
-        matchKey,
-        lengthOf @calculatedFrom(""it's""),
-        repeat zchar[255] body,
-        char[] u @lengthOf(A),
-    },
-    @leftPad('0')
-    string body `// not a comment`,
-}
-
-packet x_y_z {
-}
-
-root packet T {
-    repeat char[3] Logon,//x
-    float @lengthOf(roots) `{ , }`,
-    _x T ``,
-}
-
-packet Pad {
-    @calculatedFrom(""packet"")
-    u16 repeatCount @calculatedFrom(""" ++ [233]%N ++ runes_of_ascii "t" ++ [233]%N ++ runes_of_ascii """) `// not a comment`,
-    @tag(3)
-    zchar[4294967296] repeatCount,
-}
-
-MetaData body {
-    u32 matchKey,
-    T repeatCount `
-    `,
-    char[007] tag,
-    i8i8 asx,
-    int u8x,
-    int32 Logon `say ""hi""`,
-}")).
-Eval vm_compute in ("<<<M3676>>>" ++ check (runes_of_ascii "options {
-    StringPrefixLenType = u16;
-    ArrayPrefixLenType = u32;
-    FixedStringPadFromLeft = false;
-    FixedStringPadChar = '0';
-}
-
-packet Logout {
-    f64 f1,
-    i16 Note,
-    @rightPad('\x00')
-    char[11] Flags,
-}
-
-packet Cancel {
-    float64 msgKind,
-}
-
-packet Reject {
-    InQty43 {
-        float32 sym,
-        char[10] Tail,
-        uint8 venue,
-        uint16 f1,
-        char[9] Acct,
-    },
-}
-
-packet Trade {
-    char[] x,
-    zchar[6] Note,
-    repeat Reject,
-}
-
-root packet Order {
-    Cancel,
-    Logout,
-    u64 Acct,
-    u32 OrderId,
-    match OrderId as Body {
-        [127, 70] : Reject,
-        177 : Trade,
-        58 : Logout,
-        75 : Cancel,
-    },
-    u32 Tail @calculatedFrom(""CR\
-    C32""),
-}")).
-Eval vm_compute in ("<<<M793>>>" ++ check (runes_of_ascii "MetaData options1 { float64 //
-msg_type
-`say ""hi""`
-    , u32 x,f64
-// a // b
-//	t
-tag ,
-} root packet
-    chars
-    /// triple
-    {
-}
-    packet
-    repeatCount { @lengthOf(
-a1	) rootA @lengthOf( crc
-// trailing space 
-// @lengthOf(
-) , } root
-packet x
-    {	chars @lengthOf( msg_type
-    ) ,
-    // trailing space 
-    int16 metadata @lengthOf(
-    // @lengthOf(
-    Pad ) , @tag( 3) @lengthOf(
-a1	)uint8
-options1 ,
-    repeat string _x `" ++ [233]%N ++ runes_of_ascii "`
-,string f32a@calculatedFrom(
-""{,}""
-)
-    `{ , }` ,@tag( 4294967296	) @calculatedFrom(""// no comment""
-)@leftPad ( ) BodyLength
-@lengthOf(
-    falsey
-    // a // b
-    ) `a\`, /// triple
-repeat string
-int `
-`
-    // " ++ [27880; 37322]%N ++ runes_of_ascii "
-    , u8
-    lengthOf , }")).
-Eval vm_compute in ("<<<M31>>>" ++ check (runes_of_ascii "packet options1
-    {@leftPad
-( )
-    @calculatedFrom( ""\n"" )
-    @leftPad (
-' ' // " ++ [27880; 37322]%N ++ runes_of_ascii "
-)
-chars
-T `say ""hi""` // " ++ [27880; 37322]%N ++ runes_of_ascii "
-,
-    // @lengthOf(
-    repeat zchar
-{  metadata {
-// @lengthOf(
-// c
-match A as x_y_z {""1"" :
-// " ++ [128512]%N ++ runes_of_ascii " emoji
-// c
-string_// @lengthOf(
-[""// no comment""  ,
-10 ] : Foo""a\\"": Packet [""a	b"",
-    65535 ]
-    :	x
-,
-}
-,
-} , } // " ++ [128512]%N ++ runes_of_ascii " emoji
-,
-@rightPad (
-) f32
-msg_type
-    , match f32a as body { [
-    ""`tick`"" , ""\n"" ,
-    ""a	b"" ,
-""{,}"" , 255 ,""x y"", 3
-]:// @lengthOf(
-x ,
-    ""CRC32""
-: zchar	, ""x y"" :
-rootA // `tick` ""quote"" 'q'
-[ 00
-    ,
-    ""it's""	, 4294967296 ,""CRC32"" ]:
-roots 4294967296 : Logon}, @leftPad
-('0')pack `crlf
-line`
-, }")).
-Eval vm_compute in ("<<<M835>>>" ++ check (runes_of_ascii "root packet
-x{
-    // trailing space 
-    @lengthOf(
-u)// " ++ [27880; 37322]%N ++ runes_of_ascii "
-@tag( 00 )
-    @calculatedFrom(
-""x y""// @lengthOf(
-) float64 stringy@calculatedFrom(
-"""" ) ,  @leftPad( '0'
-) Pad @lengthOf( i8i8
-    )
-,
-    match metadata
-    as crc //	t
-{ ""abc""
-    : calculatedFrom ,// @lengthOf(
-[1
-, 3 ,	"""" , ""a	b"" ,
-007
-,""a\""b"",
-    42
-, ""it's"" ]
-: msg_type , 4294967296// @lengthOf(
+as falsey{
+42
 :
-repeatCount
-,[ 0 ] : T	, 4294967296:
-f32a ,	42 :
-u
-    , } ,
-    @leftPad(' ' ) uint64 A	@calculatedFrom(""`tick`"" ) , match
-// c
-//
-roots as Packet { ""packet"" :
-    uint8x//
-, 0
-: Packet},  } options
-{  int = ""CRC32"" charz= ""CRC32""
-Foo = true
-    ; } 	 ")).
-Eval vm_compute in ("<<<M3628>>>" ++ check (runes_of_ascii "  // c
 
-	options{} packet	// `tick` ""quote"" 'q'
-      msg_type{ T
-@calculatedFrom( 
-""it's"" 
-)
-
-,@tag(  00
-    //
-
-) match 
-rootA
-as 
-        // a // b
-	// `tick` ""quote"" 'q'
-  charz  { 255:
-
-roots
-    [""1""
-
-    ,7	, 00
-
-    ]	: 
-x } ,
-
-    zchar[ 
-007
-        // c
-	]
-
-    u 
-@calculatedFrom(
-	    // trailing space 
-      //x
-  """ ++ [28040; 24687]%N ++ runes_of_ascii """ 
-)
-,	match repeatCount 
-as Pad {[/// triple
-  ""packet"" ,1
-    ,4294967296	, ""1"" ,
-	""x y""
-,42
-
-]  :	metadata
-
+    Header
+    ""1"":	Z9_
+    ,
+    }
 ,
 
-[
-
-    3
-
-    ,65535
-
-    , """" ,
-007 ,
-
-""" ++ [233]%N ++ runes_of_ascii "t" ++ [233]%N ++ runes_of_ascii """, """ ++ [28040; 24687]%N ++ runes_of_ascii """, // c
-		""CRC32"" 
-        // " ++ [128512]%N ++ runes_of_ascii " emoji
-    ]
-
-    :
+As
+    {
+    uint8
+// `tick` ""quote"" 'q'
+  	// a // b
 
 pack
-""\" ++ [233]%N ++ runes_of_ascii """
-	:	Packet} , }
-")).
-Eval vm_compute in ("<<<M410>>>" ++ check (runes_of_ascii "packet // " ++ [128512]%N ++ runes_of_ascii " emoji
-u8x {
-    @rightPad (
-)
-@lengthOf( u128 )
-// a // b
-// a // b
-char[ 65535// packet A { u8 x, }
-] i8i8 `{ , }` ,	}
-    packet Packet {@lengthOf( Z9_ ) float32
-MetaDataX
-,
-@tag(
-3
-    )
-@calculatedFrom(
-""" ++ [233]%N ++ runes_of_ascii "t" ++ [233]%N ++ runes_of_ascii """
-    // packet A { u8 x, }
-    )
-@tag(0123456789 ) repeat
-// c
-// @lengthOf(
-_x// c
-i8i8
-`// not a comment` , @calculatedFrom("""") //	t
-MetaDataX
-    // @lengthOf(
-    @lengthOf( leftPad )
-`" ++ [233]%N ++ runes_of_ascii "` ,u32 A	,  }
-//x
-// packet A { u8 x, }
-MetaData
-    o
-//x
-// `tick` ""quote"" 'q'
-{ char[  4294967296 ]
-    // " ++ [27880; 37322]%N ++ runes_of_ascii "
-    falsey , A _x
-, }")).
-Eval vm_compute in ("<<<M1372>>>" ++ check (runes_of_ascii "root
-packet stringy	{ repeat char[]
-MetaDataX , @calculatedFrom(""CRC32""
-) body  , @tag(// @lengthOf(
-42 ) @rightPad (
-' ' ) @rightPad (
-    ) // packet A { u8 x, }
-repeat u8x {  BodyLength@lengthOf(A ) ,	} ,match f32a
-    as x_y_z{  4294967296
-: Foo ,
-}
-// @lengthOf(
-//x
-, repeatCount
-{ uint8 As
-/// triple
-// a // b
-`a\` // a // b
-,} , } packet  u{repeat// `tick` ""quote"" 'q'
-char charz ,
-} options {
-    Header = char ;	}root
-    packet  i64_ {
-u8  Z9_
-`
-`,
-@calculatedFrom( ""1""
-)u128 float  , } options{_x
-    =00 ;	}")).
-Eval vm_compute in ("<<<M3602>>>" ++ check (runes_of_ascii "// top
-root packet msg_type {
-    // c3
-    i64 options1,// c6
-    @lengthOf(f32a)
-    // c9
-    repeat uint16 Foo,// c13
-    @calculatedFrom(""x y"")
-    // c16
-    repeat int64 pack,// c20
-    @leftPad(' ')
-    // c24
-    uint8 Foo,// c27
-}// c28
+`" ++ [28040; 24687; 31867; 22411]%N ++ runes_of_ascii "`
+,	char[
 
-packet rootA {
-    // c31
-    f32a x `two words`,// c35
-    char asx @lengthOf(falsey) `u8 x,`,// c42
-    @lengthOf(i64_)
-    // c45
-    uint16 chars,// c48
-    @tag(0)
-    // c51
-    string _x @calculatedFrom(""abc"") `// not a comment`,// c58
-}// c59")).
-Eval vm_compute in ("<<<M816>>>" ++ check (runes_of_ascii "options {
-Packet=
-false ; BodyLength=
-007
-    //	t
-    rootA =
-char[	255 ] ; uint8x= true;
-// trailing space 
-//	t
+    // " ++ [27880; 37322]%N ++ runes_of_ascii "
+
+4294967296	]
+
+    stringy@calculatedFrom(	""`tick`""
+)
+    ,
+
+    i16  //x
+  rootA  @lengthOf(
+Foo
+	)	`u8 x,`//
+  ,
+
+    //
+
+  //	t
+  } ,
+
+    @leftPad 
+(
+	) match  charz
+
+    as
+f32a
+{ [ ""\n"" 
+,0123456789
+    ]
+
+: x_y_z 
+, """ ++ [28040; 24687]%N ++ runes_of_ascii """
+
+    //
+	:string_}
+,	@lengthOf(Packet )
+match
+Packet
+as
+asx	{	[  // a // b
+
+	42 
+,""\" ++ [233]%N ++ runes_of_ascii """
+
+    ] :  lengthOf
+    ,
+
+65535
+    : falsey
+    }, body
+leftPad
+,  char[ 0]
+
+    o	@calculatedFrom(
+    // " ++ [27880; 37322]%N ++ runes_of_ascii "
+
+""a\""b"")
+    `it's` ,
+
+@rightPad
+( ' ' )	char[ 65535	/// triple
+  ] a1 `crlf
+line` ,  T
+@lengthOf(
+pack)`" ++ [28040; 24687; 31867; 22411]%N ++ runes_of_ascii "`, 
 }
-    packet msg_type { @calculatedFrom(""a\""b"" ) @leftPad ( ) repeat
-    char[]
-rootA, char[	7 ]
+
+")).
+Eval vm_compute in ("<<<M204>>>" ++ check (runes_of_ascii "packet i64_ {
+    @leftPad( ) @tag(	4294967296
+) repeat	string Logon `{ , }`
+    ,@lengthOf(
+    float )u16
+    //x
+    matchKey @lengthOf(
+body
+) , repeat
+    /// triple
+    char[  4294967296 ]
+tag , @lengthOf(asx )
+repeat
+    trueish , repeat
+    lengthOf
+len
+,// packet A { u8 x, }
+match asx
+    as
+    crc {
+    [ // a // b
+""" ++ [28040; 24687]%N ++ runes_of_ascii """
+// trailing space 
+// c
+, ""abc"" ] :
+roots
+, },	match
+    uint8x as
+repeatCount
+    { [
+0123456789
+    ]:
+    /// triple
+    Foo ,""a\""b""
+    : Packet
+    42  :
+    stringy , [ // `tick` ""quote"" 'q'
+0123456789 , 007
+] : f32a , //x
+42: x }
+    // @lengthOf(
+    ,
+@lengthOf( msg_type )
+uint8x , repeat metadata// " ++ [27880; 37322]%N ++ runes_of_ascii "
+,} MetaData float { char[ 42
+] Logon
+`a\` , stringy packetx , int32 pack,rootA
+x
+    , Logon Foo , u16 A
+//	t
+//x
+, } //x
+packet
+    //	t
+    Header{  @calculatedFrom(
+    ""1"" ) u
+,@tag( 65535
+// a // b
+// trailing space 
+)
+pack { string trueish `" ++ [28040; 24687; 31867; 22411]%N ++ runes_of_ascii "`
+    , match
+stringy
+    as tag
+{  ""a\\"" : float
+    // `tick` ""quote"" 'q'
+    ,
+    ""abc"" :Z9_ ,007 :	metadata, // c
+[ 10 ] :matchKey // " ++ [27880; 37322]%N ++ runes_of_ascii "
+, ""a	b"" : _x 7// " ++ [128512]%N ++ runes_of_ascii " emoji
+:Pad } ,  repeat body
+, f32 int , } ,  MetaDataX u128 `doc` , }
+options {}
+")).
+Eval vm_compute in ("<<<M4356>>>" ++ check (runes_of_ascii "MetaData crc {
+    Z9_ metadata `u8 x,`,
+}
+
+packet matchKey {
+    leftPad,
+    string x,
+    // " ++ [27880; 37322]%N ++ runes_of_ascii "
+}
+
+packet x {
+    match msg_type as MetaDataX {
+        // @lengthOf(
+        00 : roots,
+    },
+    char[255] falsey `" ++ [28040; 24687; 31867; 22411]%N ++ runes_of_ascii "`,
+    @lengthOf(Logon)
+    @tag(42)
+    @lengthOf(Foo)
+    repeat char[1] u,
+    // packet A { u8 x, }
+    //	t
+    i8 chars @calculatedFrom(""a\""b""),
+    @calculatedFrom(""" ++ [128512]%N ++ runes_of_ascii """)
+    @calculatedFrom(""`tick`"")
+    f64 Logon,
+    @lengthOf(calculatedFrom)
+    //
+    repeatCount {
+        repeat Packet `two words`,
+        match i64_ as charz {
+            ""a\\"" : int,
+            [""\" ++ [233]%N ++ runes_of_ascii """, 0123456789, """ ++ [28040; 24687]%N ++ runes_of_ascii """] : Pad,
+            1 : As,
+            ""CRC32"" : Header,
+        },
+        char[007] tag `doc`,
+        repeat As `" ++ [233]%N ++ runes_of_ascii "`,// c
+    },
+    MetaDataX @calculatedFrom("""") `line1
+    line2`,// c
+}
+
+options {
+    _x = false
+    As = zchar[65535]
+    BodyLength = int64
+    o = false;
+    calculatedFrom = '0';
+}
+
+root packet Packet {
+    // @lengthOf(
+    falsey Packet,
+    @lengthOf(BodyLength)
+    @lengthOf(uint8x)
+    @rightPad()
+    string float `// not a comment`,
+}")).
+Eval vm_compute in ("<<<M4113>>>" ++ check (runes_of_ascii "packet BodyLength {
+    char[3] i64_ @calculatedFrom(""`tick`"") `line1
+    line2`,
+    @leftPad()
+    x `two words`,
+    zchar[0123456789] pack @calculatedFrom(""a\""b"") `crlf
+    line`,
+    calculatedFrom {
+        char[255] MetaDataX @calculatedFrom(""packet"") `doc`,
+        zchar[007] leftPad `crlf
+        line`,
+        uint8x @calculatedFrom(""a\""b""),
+        //
+        //
+        MetaDataX _x,
+    },
+    @calculatedFrom(""packet"")
+    zchar[7] repeatCount `" ++ [28040; 24687; 31867; 22411]%N ++ runes_of_ascii "`,
+    @lengthOf(Foo)
+    // " ++ [128512]%N ++ runes_of_ascii " emoji
+    int64 A @lengthOf(charz) ``,
+    @tag(7)
+    packetx @calculatedFrom("""") `a\`,
+}
+
+root packet u128 {
+}
+
+packet Logon {
+    T {
+        T @lengthOf(u8x) `tab	here`,
+        As `u8 x,`,
+    },
+    int64 T,
+    i64 tag @lengthOf(i64_),
+    @lengthOf(metadata)
+    repeat i8 rootA,
+    int64 Foo @lengthOf(a1),
+    chars {
+        string packetx @lengthOf(chars) `" ++ [233]%N ++ runes_of_ascii "`,
+        a1 @calculatedFrom(""a\""b""),
+        char[] crc @lengthOf(i8i8),
+    },
+}
+
+options {
+    matchKey = ' '
+    asx = true;
+    MetaDataX = ""it's"";
+}")).
+Eval vm_compute in ("<<<M3705>>>" ++ check (runes_of_ascii "packet a1 {
+    chars {
+        len {
+            Logon len,
+            string string_,
+            u8x @calculatedFrom(""a\\""),
+            repeat float {
+                body int `" ++ [233]%N ++ runes_of_ascii "`,
+            },
+        },
+        repeat As {
+            repeat i64_ f32a `{ , }`,
+            A @calculatedFrom(""\" ++ [233]%N ++ runes_of_ascii """),
+            int64 float,
+        },
+        match x as chars {
+            [
+                """ ++ [128512]%N ++ runes_of_ascii """, 007, ""x y"", 00, ""x y"",
+                10
+            ] : string_,
+            10 : float,
+            4294967296 : x_y_z,
+            [
+                """ ++ [233]%N ++ runes_of_ascii "t" ++ [233]%N ++ runes_of_ascii """, 10, 42, """ ++ [28040; 24687]%N ++ runes_of_ascii """, 0123456789,
+                42, 10
+            ] : T,
+            00 : leftPad,
+        },
+        crc @lengthOf(u128),
+    },
+    char[] packetx @calculatedFrom(""abc"") `line1
+        line2`,
+    int32 repeatCount @lengthOf(Foo) `it's`,
+    match Packet as string_ {
+        42 : f32a,
+        255 : MetaDataX,
+        1 : i8i8,
+        """" : a1,
+        //	t
+    },
+    _x @lengthOf(chars),
+}")).
+Eval vm_compute in ("<<<M1263>>>" ++ check (runes_of_ascii "root
+    packet  matchKey
+    { match uint8x as x_y_z { 1
+    : // @lengthOf(
+falsey // a // b
+, } ,}
+packet
+    // " ++ [27880; 37322]%N ++ runes_of_ascii "
+    MetaDataX  {
+    /// triple
+    float @calculatedFrom(""a\\"" ) `// not a comment`, repeat stringy {  match repeatCount as
+a1 {	[ ""// no comment"" ] : metadata , //	t
+[ 4294967296 ,""" ++ [233]%N ++ runes_of_ascii "t" ++ [233]%N ++ runes_of_ascii """ ] : len
+    [""a\\""
+    , 4294967296 ,""packet"" , """ ++ [233]%N ++ runes_of_ascii "t" ++ [233]%N ++ runes_of_ascii """ ,
+    10 , 0 // " ++ [27880; 37322]%N ++ runes_of_ascii "
+] :charz
+    , 00 :  i64_ , [
+7 ] :
+tag, 00
+//	t
+//	t
+: falsey }
+    , }
+    , roots @calculatedFrom( ""1"" ) `
+`
+    ,msg_type  @lengthOf(
+    stringy
+) `a\`  , int MetaDataX `doc` , @calculatedFrom( // trailing space 
+""" ++ [128512]%N ++ runes_of_ascii """ ) u64
+int `say ""hi""`
+    , }packet //x
+rootA{
+asx // c
+@lengthOf( Foo) `a\`, @leftPad(
+' ' )
+string// c
+Z9_
+,
+    crc
+    //x
+    @lengthOf(
+//	t
+// a // b
+leftPad
+)	`doc` ,  repeat calculatedFrom
+    // packet A { u8 x, }
+    u128`{ , }` , //x
+@calculatedFrom(
+""packet""
+) @calculatedFrom(""\" ++ [233]%N ++ runes_of_ascii """	)i16 roots `doc` , }")).
+Eval vm_compute in ("<<<M1360>>>" ++ check (runes_of_ascii "root packet lengthOf // @lengthOf(
+{ } //x
+packet _x{//
+@calculatedFrom(//x
+""a	b"" )
+@tag( 65535// packet A { u8 x, }
+)
+    char[ 65535 ]
+// c
+// `tick` ""quote"" 'q'
+matchKey , }packet leftPad {
+u16
+leftPad	, @tag( 0123456789 )
+// " ++ [128512]%N ++ runes_of_ascii " emoji
+// @lengthOf(
+char[ 1 ] f32a @lengthOf( options1
+) , string_ BodyLength , Foo
+`" ++ [28040; 24687; 31867; 22411]%N ++ runes_of_ascii "`
+    //
+    ,@lengthOf(
+u128 ) i32 trueish @lengthOf( chars
+)
+`it's` ,
+    u8x	u8x  `{ , }` , match Foo
+    as leftPad
+{ // c
+0123456789: calculatedFrom}, @leftPad ('0' // c
+)int32	rootA	`crlf
+line`
+,	match BodyLength as
+pack
+{ [ 10
+    ] : stringy,
+10 :stringy 1 :u , } , match zchar as calculatedFrom
+{ """ ++ [128512]%N ++ runes_of_ascii """ :	len , }
+//x
+// trailing space 
+, } MetaData // packet A { u8 x, }
+Z9_
+{Pad As `line1
+line2`
     // a // b
-    Packet
-, @leftPad ( ' ' )
-    u64
-metadata @calculatedFrom( ""x y"") ,
-@tag( 42 )match lengthOf as f32a{
-[ ""// no comment"" ,""\" ++ [233]%N ++ runes_of_ascii """ ,42 , ""\n""]:	metadata,
-// packet A { u8 x, }
-//
-4294967296
+    , Z9_ zchar , int8 repeatCount , i64_ trueish,
+A uint8x
+,// trailing space 
+leftPad Logon`two words`, } options { } 	 ")).
+Eval vm_compute in ("<<<M3618>>>" ++ check (runes_of_ascii "
+
+  options
+	    // trailing space 
+    	// " ++ [27880; 37322]%N ++ runes_of_ascii "
+	{
+
+    Foo
+=
+""it's"" lengthOf = int8
+
+    falsey  /// triple
+      =	7
+
+    ;
+
+a1
+=
+false ;
+    } MetaData
+	repeatCount
+    //x
+  //x
+
+{ T
+
+repeatCount, u8x
+msg_type `// not a comment`,
+    repeatCount
+
+T
+
+,
+
+    }
+
+    packet	repeatCount  {
+
+@tag(  007
+    ) i64_  As
+	,
+	} root 
+packet 
+packetx {
+    string
+	//	t
+    	// " ++ [128512]%N ++ runes_of_ascii " emoji
+    T@calculatedFrom(  ""{,}""	//
+		)
+
+,	repeat 
+zchar[ 
+4294967296]  x  ,  @tag(
+42 )
+@lengthOf(
+lengthOf
+)/// triple
+      @calculatedFrom(
+""`tick`"" ) repeat u16 u128
+    `say ""hi""`// trailing space 
+	,// trailing space 
+	@rightPad
+( )@tag(255 )
+    repeat	uint8x 
+Logon  
+  // packet A { u8 x, }
+
+,  repeat zchar[	007
+]  Logon  `a\`
+,
+    @rightPad (
+// `tick` ""quote"" 'q'
+  '0')// @lengthOf(
+
+	string falsey
+,
+    } ")).
+Eval vm_compute in ("<<<M1187>>>" ++ check (runes_of_ascii "packet len {	@tag( 007 ) @lengthOf(  calculatedFrom
+    // @lengthOf(
+    )
+@rightPad
+( '0' )
+roots
+asx `
+` ,@calculatedFrom(
+    ""\" ++ [233]%N ++ runes_of_ascii """ )
+    //
+    repeatCount @lengthOf(matchKey
+) `it's` , @lengthOf(
+int ) match
+    repeatCount as rootA {  ""packet""
+// `tick` ""quote"" 'q'
+// " ++ [27880; 37322]%N ++ runes_of_ascii "
+: x_y_z
+[ ""1""
+    // `tick` ""quote"" 'q'
+    ,
+65535 , 3, ""{,}"" ,//x
+"""" ]
 :
-trueish ,
-007:
-rootA ,
-007 :	float  """"  : body, }, }")).
+    Logon } ,repeat options1 ,
+stringy@lengthOf(
+/// triple
+//	t
+Header )
+`
+` ,
+    repeat
+zchar[ 7 ]msg_type `tab	here`
+,/// triple
+zchar[ 10] u8x, Pad
+    {u8x
+@calculatedFrom(	""packet"" )  ,},  i8i8 {
+repeat uint8x lengthOf ,
+    match Z9_
+    as A
+    // " ++ [128512]%N ++ runes_of_ascii " emoji
+    { 0	:trueish , } ,
+} , match
+u128 as lengthOf //	t
+{
+    3	: //	t
+Pad}
+// c
+//	t
+, }
+packet calculatedFrom
+{
+zchar[ // `tick` ""quote"" 'q'
+10
+]repeatCount
+    ,}")).
+Eval vm_compute in ("<<<M4107>>>" ++ check (runes_of_ascii "options {
+    LittleEndian = false;
+    StringPrefixLenType = u16;
+    ArrayPrefixLenType = u32;
+}
+
+packet Order {
+    uint8 x,
+    repeat string venue,
+}
+
+packet Heartbeat {
+    i64 count,
+    zchar[1] Qty,
+    repeat InX29 {
+        InSeqno26 {
+            int64 f1,
+            char[5] Acct,
+            Order,
+        },
+        repeat InSide285 {
+            repeat Order,
+            char[10] Px,
+            zchar[9] OrderId,
+        },
+        char[] venue,
+        Order,
+    },
+    @rightPad('\x00')
+    char[4] clOrdID,
+}
+
+root packet Party {
+    zchar[3] f1,
+    u32 clOrdID,
+    u32 Px @lengthOf(Body),
+    match clOrdID as Body {
+        [180, 64] : Heartbeat,
+        11 : Order,
+    },
+    u32 Side2 @calculatedFrom(""CR\
+        C32""),
+}")).
+Eval vm_compute in ("<<<M157>>>" ++ check (runes_of_ascii "packet Packet { zchar[ /// triple
+00] u
+@lengthOf(tag
+    ),	repeat // " ++ [128512]%N ++ runes_of_ascii " emoji
+string u8x `u8 x,`
+    , packetx { repeat uint8 leftPad `doc` ,
+}	,// " ++ [27880; 37322]%N ++ runes_of_ascii "
+@tag(	0123456789
+)char[] chars@lengthOf(rootA
+// trailing space 
+// c
+) `{ , }` , uint8 Packet ,
+repeat a1 `two words`
+//
+//
+,@calculatedFrom(
+    //	t
+    ""it's"") string_ {u16 A
+// packet A { u8 x, }
+// a // b
+`crlf
+line` , repeat
+string // " ++ [27880; 37322]%N ++ runes_of_ascii "
+uint8x
+    , string u128 ,
+    } , }	packet MetaDataX{
+    //x
+    @tag( 0123456789 ) char[ // packet A { u8 x, }
+3
+    ] Packet , } MetaData
+    repeatCount {  } root packet  u8x
+    // `tick` ""quote"" 'q'
+    { x_y_z// " ++ [27880; 37322]%N ++ runes_of_ascii "
+@lengthOf(
+    // a // b
+    o ) `two words` , // " ++ [27880; 37322]%N ++ runes_of_ascii "
+repeat zchar[ 0123456789
+] len `" ++ [233]%N ++ runes_of_ascii "` , }
+//
+")).
+Eval vm_compute in ("<<<M4402>>>" ++ check (runes_of_ascii "
+
+  options{	tag
+
+    =	""it's"" 
+//	t
+// packet A { u8 x, }
+
+; int =	zchar[ 00
+]
+;
+    x_y_z
+    =  ""a	b""
+;
+packetx
+
+    = ' '
+;
+	} packet rootA
+
+{
+uint8x
+    @calculatedFrom(
+    ""CRC32""
+
+    )	, // " ++ [27880; 37322]%N ++ runes_of_ascii "
+	  u // `tick` ""quote"" 'q'
+
+{	repeat
+
+    string repeatCount  `line1
+line2` ,
+    repeat 
+Logon
+	{  f32a
+
+    @lengthOf(
+roots),
+	Packet{
+int32 Z9_	`u8 x,` 
+,
+    } 
+,Packet Packet 
+,
+}
+    , 
+repeat 
+      // " ++ [128512]%N ++ runes_of_ascii " emoji
+  // trailing space 
+repeatCount zchar,
+    }
+	,a1
+@calculatedFrom(
+""abc"" )	// `tick` ""quote"" 'q'
+  , 
+} // `tick` ""quote"" 'q'
+		root packet crc 
+{
+@tag(
+
+    00
+    )char[
+7
+
+// `tick` ""quote"" 'q'
+  ] asx	@lengthOf(
+
+    T
+    ) ``	, }
+
+")).
+Eval vm_compute in ("<<<M4464>>>" ++ check (runes_of_ascii "  //	t
+	packet
+
+len { repeat Logon
+    {
+i16
+	leftPad	,
+
+    } ,@calculatedFrom( ""a\""b"") repeat 	 /// triple
+    u16
+    // trailing space 
+	//x
+		u
+, @calculatedFrom( 
+    // a // b
+	""abc"" )Header
+`two words` ,
+
+u8
+
+pack
+
+@calculatedFrom(  """ ++ [233]%N ++ runes_of_ascii "t" ++ [233]%N ++ runes_of_ascii """ 
+    // " ++ [128512]%N ++ runes_of_ascii " emoji
+	)
+,
+}// @lengthOf(
+packet	string_
+
+    {
+    stringy@calculatedFrom(	// " ++ [128512]%N ++ runes_of_ascii " emoji
+      ""it's""	)
+    ,
+}
+
+packet
+	chars
+    { 
+// `tick` ""quote"" 'q'
+		match
+matchKey as 
+_x
+{
+
+    ""abc""
+:
+	Packet // " ++ [128512]%N ++ runes_of_ascii " emoji
+	}
+
+,	// @lengthOf(
+
+	char
+Foo `doc`	,	match
+
+charz
+
+    as
+	Foo{
+	[
+1
+	,
+
+    ""\" ++ [233]%N ++ runes_of_ascii """ ]
+    :
+
+    Logon ,},@lengthOf(  pack )	/// triple
+Packet
+, } 	 // a // b
+")).
+Eval vm_compute in ("<<<M654>>>" ++ check (runes_of_ascii "options
+    //	t
+    { lengthOf
+= ""a\""b""
+    A =
+    // packet A { u8 x, }
+    false ; repeatCount=
+7 ;body =// a // b
+true ; } packet roots { string f32a ,} root packet crc{@rightPad
+    ( '0' ) zchar[
+42 ] zchar	@calculatedFrom(""abc"" )
+    `// not a comment`,f32 x_y_z
+,
+repeat  packetx
+    `u8 x,` //x
+, @lengthOf(
+tag
+    ) f64	u8x `` , char[] options1//	t
+, @lengthOf( matchKey	)
+Logon @calculatedFrom(""{,}"" )
+    `" ++ [28040; 24687; 31867; 22411]%N ++ runes_of_ascii "` , }
+root packet
+falsey { match // @lengthOf(
+matchKey as asx{ ""\" ++ [233]%N ++ runes_of_ascii """:
+i64_ [ 4294967296 , ""a\\"" ] : falsey [
+3
+    , 7,
+    ""// no comment"" ,7 , ""CRC32"" , 0 ,
+""// no comment""
+    ,0 ] :
+zchar
+, },
+}")).
+Eval vm_compute in ("<<<M1101>>>" ++ check (runes_of_ascii "
+packet
+    a1 { uint16 MetaDataX @lengthOf( f32a )
+    , @lengthOf(
+leftPad)
+    @tag(
+    00) @tag( 0 )msg_type , match body as x_y_z
+{ """"  : trueish	,["""" , // " ++ [27880; 37322]%N ++ runes_of_ascii "
+00 ]
+    : pack
+    , //x
+0
+:// a // b
+i8i8 /// triple
+, [
+1 , ""// no comment""
+/// triple
+// " ++ [128512]%N ++ runes_of_ascii " emoji
+]// trailing space 
+: chars, } ,	repeat char[
+4294967296 // " ++ [27880; 37322]%N ++ runes_of_ascii "
+] stringy,T @calculatedFrom( """ ++ [128512]%N ++ runes_of_ascii """
+),@lengthOf( falsey //	t
+) float64
+    // " ++ [27880; 37322]%N ++ runes_of_ascii "
+    float `a\` , char[]	calculatedFrom@calculatedFrom(	""1"" ),
+// a // b
+//
+float64	zchar `// not a comment` , float32 Header
+    `a\`, //x
+zchar[ 42
+    ]
+As@lengthOf(
+chars )
+,
+    }
+")).
+Eval vm_compute in ("<<<M533>>>" ++ check (runes_of_ascii "packet asx {@calculatedFrom( ""`tick`""	)match crc as x {
+    3:x_y_z ,	""it's""
+    // trailing space 
+    : msg_type , [ 1 , /// triple
+10 , // " ++ [128512]%N ++ runes_of_ascii " emoji
+""abc""
+,
+0// a // b
+] :
+u } , @tag(65535	)
+packetx `two words`, }root packet rootA{chars @lengthOf(leftPad// " ++ [27880; 37322]%N ++ runes_of_ascii "
+)
+    /// triple
+    , @calculatedFrom(""a\\"") match crc as leftPad// `tick` ""quote"" 'q'
+{
+    [
+255
+,""a	b""
+]	:falsey,
+    00 : a1	,
+7
+/// triple
+/// triple
+: Z9_ , 00 : a1
+, } , match packetx as Pad	{	[
+""// no comment""]:
+len,
+} ,
+    }packet zchar { @calculatedFrom(""\n""
+)string Logon,
+}")).
+Eval vm_compute in ("<<<M3654>>>" ++ check (runes_of_ascii "  packet
+
+    // " ++ [128512]%N ++ runes_of_ascii " emoji
+  Header 
+{	@calculatedFrom(	"""" )@calculatedFrom( 
+""" ++ [128512]%N ++ runes_of_ascii """
+)
+	@calculatedFrom(
+	""it's""
+
+)
+    tag 
+	    // trailing space 
+
+	//
+    { 
+int32 repeatCount  ,
+    f32a //
+  @lengthOf(
+
+    BodyLength) 
+,	calculatedFrom
+	{
+	i64_
+len	, trueish 
+@lengthOf(body
+    )
+
+    `
+` , i64
+f32a
+`u8 x,`
+, //x
+match
+
+    Foo
+as
+A
+
+    { 
+007
+:
+	options1 
+//x
+/// triple
+  ,255:
+charz ,
+""" ++ [233]%N ++ runes_of_ascii "t" ++ [233]%N ++ runes_of_ascii """:zchar, ""`tick`""  :u8x , 
+1:len }, 
+} , } ,repeat leftPad
+{ uint32
+	packetx
+``
+
+,
+
+    } 	 // c
+		,
+
+    } ")).
+Eval vm_compute in ("<<<M3284>>>" ++ check (runes_of_ascii "// top
+packet
+    // c0
+trueish
+    // c1
+{
+    // c2
+repeat
+    // c3
+u32
+    // c4
+MetaDataX
+    // c5
+`doc`
+    // c6
+,
+    // c7
+Header
+    // c8
+{
+    // c9
+packetx
+    // c10
+o
+    // c11
+`u8 x,`
+    // c12
+,
+    // c13
+}
+    // c14
+,
+    // c15
+@leftPad
+    // c16
+(
+    // c17
+'\x00'
+    // c18
+)
+    // c19
+repeat
+    // c20
+char[
+    // c21
+0123456789
+    // c22
+]
+    // c23
+repeatCount
+    // c24
+,
+    // c25
+}
+    // c26
+packet
+    // c27
+Packet
+    // c28
+{
+    // c29
+}
+    // c30
+")).
+Eval vm_compute in ("<<<M1291>>>" ++ check (runes_of_ascii "/// triple
+root packet x{
+@rightPad () // trailing space 
+string f32a `two words` ,  match MetaDataX as packetx { ""CRC32""
+: metadata, ""\" ++ [233]%N ++ runes_of_ascii """
+    // @lengthOf(
+    :
+leftPad ,
+// packet A { u8 x, }
+// trailing space 
+[ ""// no comment"" , 00
+    , 4294967296  ,  10	,65535
+    , ""`tick`"", ""a\""b"" ] : chars , """ ++ [28040; 24687]%N ++ runes_of_ascii """:Foo , ""a\\"" :
+    calculatedFrom , }
+,@calculatedFrom( ""a\\""
+) @lengthOf(A
+) @calculatedFrom( """ ++ [128512]%N ++ runes_of_ascii """) x_y_z ,
+repeat crc {
+    string repeatCount , } , } options {
+}
+")).
 Eval vm_compute in ("<<<M486>>>" ++ check (runes_of_ascii "packet Pad
 {@lengthOf( len	)	zchar[10 ] int  `a\` , @tag( 007 )
 string leftPad@lengthOf(	string_ )
@@ -1261,998 +1369,1007 @@ trueish }
 line`
     ,  }
 ")).
-Eval vm_compute in ("<<<M30>>>" ++ check (runes_of_ascii "packet  chars { zchar[ 10
-    ]x
-@lengthOf( repeatCount )
-    ,
-repeat
-    metadata{
-string int ,repeat
-matchKey //x
-, match leftPad as o { 0 : matchKey
-    // " ++ [27880; 37322]%N ++ runes_of_ascii "
-    ,
-[ 0 ]
-: float 0 : packetx// " ++ [128512]%N ++ runes_of_ascii " emoji
-255 :i64_
-    ,//	t
-[0 , 007 , ""a\\"" ,
-    //	t
-    """ ++ [128512]%N ++ runes_of_ascii """
-    ,
-65535  , 255 ]
-:
-charz ,	255 : u,	} , },  @rightPad( ' ' )
-// packet A { u8 x, }
-// " ++ [128512]%N ++ runes_of_ascii " emoji
-@tag( 255
-) // c
-@rightPad
-(	' ' ) u16 falsey,}options
-    { f32a
-= """ ++ [128512]%N ++ runes_of_ascii """ ;	}
-")).
-Eval vm_compute in ("<<<M3648>>>" ++ check (runes_of_ascii "root packet pack {
-    repeat u8x `a\`,
-    char[3] MetaDataX `two words`,
-    @leftPad(' ')
-    zchar[4294967296] crc @calculatedFrom(""" ++ [128512]%N ++ runes_of_ascii """),
-    @lengthOf(options1)
-    @calculatedFrom(""x y"")
-    repeat u {
-        repeat x_y_z options1 `two words`,
-        zchar[3] charz,
-        Logon {
-            u8 pack,
-            repeat zchar,
-            i8i8 {
-                repeat u8 matchKey,
-            },
-        },
-    },
-}")).
-Eval vm_compute in ("<<<M608>>>" ++ check (runes_of_ascii "packet asx{repeat
-    falsey {  match lengthOf as T {
-    [""\" ++ [233]%N ++ runes_of_ascii """
-    ,42 ,  1
-, ""// no comment"", """ ++ [28040; 24687]%N ++ runes_of_ascii """]
-    :	x , 4294967296 :matchKey ,
-7 :roots
-    ,[ // `tick` ""quote"" 'q'
-0123456789
-,// " ++ [128512]%N ++ runes_of_ascii " emoji
-""// no comment""
-    // trailing space 
-    ,0123456789 ,
-3	, 0123456789
-    , 65535, ""a\\"" , ""a	b"" ]
-    : metadata , [ 65535 ] : asx , [""a	b"",
-""a\\"" , 4294967296	] : x ,	}//
-, } , @leftPad (  ) falsey T ,	}
-")).
-Eval vm_compute in ("<<<M367>>>" ++ check (runes_of_ascii "packet	T  {
-/// triple
-// @lengthOf(
-@tag( 007 )
-T
-    @calculatedFrom( ""CRC32"")
-//	t
-//
-, @tag( // " ++ [27880; 37322]%N ++ runes_of_ascii "
-65535	) repeat
-    tag { a1 @calculatedFrom( ""a\""b"" )	, }
-,
-As
+Eval vm_compute in ("<<<M3546>>>" ++ check (runes_of_ascii "options	{  LittleEndian
+    =  false
+    ; 
+StringPrefixLenType
+
+= u8	;ArrayPrefixLenType
+    =
+u16 ; 
+FixedStringPadFromLeft = false
+    ;
+
+}  packet Heartbeat
     {
-    char[ //	t
-007 ] lengthOf , char[]x @lengthOf(crc )`` ,  repeat
-i8
-    matchKey , tag Z9_ , } ,repeat
-// c
-/// triple
-uint64
-zchar
-    // packet A { u8 x, }
-    `doc` ,	@tag(255
-)repeat zchar[ 7 ]lengthOf
-, }")).
-Eval vm_compute in ("<<<M4298>>>" ++ check (runes_of_ascii "options {
-    len = 255
-    tag = """ ++ [233]%N ++ runes_of_ascii "t" ++ [233]%N ++ runes_of_ascii """
+    u8	seqNo, @rightPad ('\x00'
+) char[8
+    ]
+	x,
+
+    }root
+packet Trade{repeat
+Heartbeat,
+float32	OrderId
+	,	i64
+	Acct	, u16 
+Qty ,
+
+    u16
+clOrdID
+    ,  match  clOrdID
+
+as
+	Body
+{	131
+    :
+
+    Heartbeat,
+	}, 
+u16
+sym
+@calculatedFrom(
+
+""CRC32""
+    )  , }")).
+Eval vm_compute in ("<<<M3635>>>" ++ check (runes_of_ascii "// top
+packet P1 {
+    // c2
+    u8 a,// c5
 }
 
-packet packetx {
+// c6
+packet P2 {
+    // c9
+    P1,// c11
+}
+
+packet P3 {
+    P2,
+    P1,
+}
+
+// c20
+packet P4 {
+    repeat P3,
+    // c26
+    P2,// c28
+}
+
+// c29
+root packet P5 {
+    // c33
+    P4,// c35a
+    // c35b
+    P3,// c37
+    P1,
+    u8 K,// c42
+    match K as Body {
+        // c47
+        4 : P4,
+        3 : P3,
+        2 : P2,
+        // c59
+        1 : P1,
+    },// c65
+}
+// c66")).
+Eval vm_compute in ("<<<M220>>>" ++ check (runes_of_ascii "
+packet	float // a // b
+{ // c
+}
+packet u128 { @calculatedFrom(	""1"") asx x_y_z `" ++ [28040; 24687; 31867; 22411]%N ++ runes_of_ascii "` ,}
+    root packet
+    u8x { repeat uint8x	T
+, }
+packet leftPad
+    {
+i64_,@leftPad ( '0' )
+repeat	tag
+,repeat  uint8x  {	matchKey @calculatedFrom( ""abc""
+    ) , string charz ,
+    }// trailing space 
+,@rightPad
+( )zchar[ 10] charz
+    @calculatedFrom( """ ++ [128512]%N ++ runes_of_ascii """ )	`// not a comment` , // trailing space 
+}
+// @lengthOf(
+")).
+Eval vm_compute in ("<<<M3726>>>" ++ check (runes_of_ascii "// top
+MetaData x_y_z {
+    // c2
+    char body,// c5a
+    // c5b
+    f64 i8i8 `two words`,// c9a
+    // c9b
+    body body `" ++ [28040; 24687; 31867; 22411]%N ++ runes_of_ascii "`,
+}// c14a
+
+// c14b
+root packet chars {
+    // c18
+    @lengthOf(i64_)
+    chars,// c23a
+    // c23b
+    i8i8 {
+        // c25a
+        // c25b
+        falsey @lengthOf(stringy) `doc`,
+        // c31
+    },
+    x @lengthOf(A) `crlf
+    line`,
+}// c40a
+// c40b")).
+Eval vm_compute in ("<<<M892>>>" ++ check (runes_of_ascii "// c
+packet	uint8x
+{ @calculatedFrom(
+    ""CRC32"" )  repeat BodyLength,// " ++ [128512]%N ++ runes_of_ascii " emoji
+f32a
+    ,
+}
+// @lengthOf(
+//x
+root packet rootA
+    { @lengthOf( BodyLength )
+@lengthOf(
+roots )	repeat int // " ++ [27880; 37322]%N ++ runes_of_ascii "
+roots
+,
+    @tag(
+    007)repeat
+float64 o	, @calculatedFrom( """" )
+char[ 255	] repeatCount ,
+    // " ++ [128512]%N ++ runes_of_ascii " emoji
+    int {repeat roots roots , u32 tag  `crlf
+line` ,}
+    ,	}")).
+Eval vm_compute in ("<<<M343>>>" ++ check (runes_of_ascii "
+root packet Packet { @calculatedFrom(""packet""
+)
+    char[]  Packet
+, match	crc
+as T {255 :A ,
+} ,
+/// triple
+// `tick` ""quote"" 'q'
+repeat x_y_z , x_y_z@calculatedFrom( ""`tick`"" )`a\` ,
+// c
+//x
+@calculatedFrom( // a // b
+""" ++ [28040; 24687]%N ++ runes_of_ascii """ ) @lengthOf(Foo
+    )match MetaDataX as T
+    { 0 : repeatCount , } , } MetaData string_
+{ u64 x_y_z,	}packet u // " ++ [27880; 37322]%N ++ runes_of_ascii "
+{
+    }
+")).
+Eval vm_compute in ("<<<M3768>>>" ++ check (runes_of_ascii "options {
+    x_y_z = ""x y"";
+}
+
+// " ++ [27880; 37322]%N ++ runes_of_ascii "
+packet int {
+    @calculatedFrom(""\" ++ [233]%N ++ runes_of_ascii """)
+    match MetaDataX as o {
+        // c
+        4294967296 : o,
+    },
+}
+
+// packet A { u8 x, }
+MetaData asx {
+    As u8x `// not a comment`,
+    char[] string_ `doc`,
+    i64_ Z9_,
+    i16 leftPad `it's`,
+    u16 BodyLength `// not a comment`,
+    lengthOf len,
+}")).
+Eval vm_compute in ("<<<M435>>>" ++ check (runes_of_ascii "// trailing space 
+packet i64_ {uint8	body , @calculatedFrom(
+""\n"" ) repeat BodyLength {repeat
+// trailing space 
+// packet A { u8 x, }
+crc	len
+`" ++ [233]%N ++ runes_of_ascii "`
+, As , repeat char[] Header
+,
+}, match T as T { 3 : repeatCount ,}  , match tag
+    as pack {	""a	b""://
+string_  , } ,
+    zchar[10  ] a1 ``
+    ,
+@tag( 3//	t
+) string int ,
+}
+")).
+Eval vm_compute in ("<<<M96>>>" ++ check (runes_of_ascii "options{
+} packet /// triple
+chars {
+int64 i8i8
+    /// triple
+    @calculatedFrom( ""// no comment"" ) `line1
+line2` ,
+@calculatedFrom(
+""`tick`"" )
+    _x
+    `" ++ [28040; 24687; 31867; 22411]%N ++ runes_of_ascii "` , match
+float /// triple
+as BodyLength  {//
+""" ++ [28040; 24687]%N ++ runes_of_ascii """:
+    x_y_z [ 7 , 10
+    , """ ++ [233]%N ++ runes_of_ascii "t" ++ [233]%N ++ runes_of_ascii """	, 1 ,""x y"" , 3 ] :	i64_	,
+} , // a // b
+} packet
+uint8x { } // " ++ [27880; 37322]%N)).
+Eval vm_compute in ("<<<M1560>>>" ++ check (runes_of_ascii "root packet Foo // " ++ [128512]%N ++ runes_of_ascii " emoji
+{ } options {
+    // a // b
+    tag // `tick` ""quote"" 'q'
+= //	t
+""""
+    ; u8x = zchar[0  ] }
+MetaData
+    int {zchar[ 10]
+lengthOf	`` , i64 u8x`// not a comment` ,MetaDataX MetaDataX pack// `tick` ""quote"" 'q'
+`crlf
+line`
+, Logon charz `crlf
+line`
+    ,
+    // a // b
+    }
+")).
+Eval vm_compute in ("<<<M1577>>>" ++ check (runes_of_ascii "root packet Foo // " ++ [128512]%N ++ runes_of_ascii " emoji
+{ } options {
+    // a // b
+    tag // `tick` ""quote"" 'q'
+= //	t
+""""
+    ; u8x = zchar[0  ] }
+MetaData
+    int {zchar[ 10]
+lengthOf	`` , i64 u8x`// not a comment` ,MetaDataX pack// `tick` ""quote"" 'q'
+`crlf
+line`
+match Logon charz `crlf
+line`
+    ,
+    // a // b
+    }
+")).
+Eval vm_compute in ("<<<M1535>>>" ++ check (runes_of_ascii "root packet Foo // " ++ [128512]%N ++ runes_of_ascii " emoji
+{ } options {
+    // a // b
+    tag // `tick` ""quote"" 'q'
+= //	t
+""""
+    ; u8x = zchar[0  ] }
+MetaData
+    int {zchar[ 10]
+lengthOf	`` , , i64 u8x`// not a comment` ,MetaDataX pack// `tick` ""quote"" 'q'
+`crlf
+line`
+, Logon charz `crlf
+line`
+    ,
+    // a // b
+    }
+")).
+Eval vm_compute in ("<<<M1426>>>" ++ check (runes_of_ascii "root packet Foo // " ++ [128512]%N ++ runes_of_ascii " emoji
+} { options {
+    // a // b
+    tag // `tick` ""quote"" 'q'
+= //	t
+""""
+    ; u8x = zchar[0  ] }
+MetaData
+    int {zchar[ 10]
+lengthOf	`` , i64 u8x`// not a comment` ,MetaDataX pack// `tick` ""quote"" 'q'
+`crlf
+line`
+, Logon charz `crlf
+line`
+    ,
+    // a // b
+    }
+")).
+Eval vm_compute in ("<<<M1587>>>" ++ check (runes_of_ascii "root packet Foo // " ++ [128512]%N ++ runes_of_ascii " emoji
+{ } options {
+    // a // b
+    tag // `tick` ""quote"" 'q'
+= //	t
+""""
+    ; u8x = zchar[0  ] }
+MetaData
+    int {zchar[ 10]
+lengthOf	`` , i64 u8x`// not a comment` ,MetaDataX pack// `tick` ""quote"" 'q'
+`crlf
+line`
+, Logon uint8 `crlf
+line`
+    ,
+    // a // b
+    }
+")).
+Eval vm_compute in ("<<<M1454>>>" ++ check (runes_of_ascii "root packet Foo // " ++ [128512]%N ++ runes_of_ascii " emoji
+{ } options {
+    // a // b
+    tag // `tick` ""quote"" 'q'
+= //	t
+
+    ; u8x = zchar[0  ] }
+MetaData
+    int {zchar[ 10]
+lengthOf	`` , i64 u8x`// not a comment` ,MetaDataX pack// `tick` ""quote"" 'q'
+`crlf
+line`
+, Logon charz `crlf
+line`
+    ,
+    // a // b
+    }
+")).
+Eval vm_compute in ("<<<M1592>>>" ++ check (runes_of_ascii "root packet Foo // " ++ [128512]%N ++ runes_of_ascii " emoji
+{ } options {
+    // a // b
+    tag // `tick` ""quote"" 'q'
+= //	t
+""""
+    ; u8x = zchar[0  ] }
+MetaData
+    int {zchar[ 10]
+lengthOf	`` , i64 u8x`// not a comment` ,MetaDataX pack// `tick` ""quote"" 'q'
+`crlf
+line`
+, Logon charz zchar[
+    ,
+    // a // b
+    }
+")).
+Eval vm_compute in ("<<<M236>>>" ++ check (runes_of_ascii "root packet
+    x_y_z{ match lengthOf
+as // `tick` ""quote"" 'q'
+rootA { 42 :
+    asx } ,	@rightPad(
+' ' ) repeat u16 int`// not a comment`, @tag(42	)rootA string_, int32 lengthOf // trailing space 
+,match
+    As as falsey { [ ""// no comment"" ] :
+    calculatedFrom,
+    } , }
+")).
+Eval vm_compute in ("<<<M3497>>>" ++ check (runes_of_ascii "  packet 
+P1{
+
+    u8
+
+a 
+,}	packet
+P2 {
+    P1	,} packet
+P3 {
+P2
+,
+P1	,}  packet
+    P4
+
+    {
+repeat P3
+,	P2 ,}
+root	packet P5
+
+{ 
+P4,
+
+    P3
+
+,P1 ,	u8  K
+
+    ,
+    match  K	as  Body	{
+
+4 :	P4
+
+,	3
+:P3
+
+    , 
+2 : P2
+
+,
+    1
+:
+
+P1 ,
+
+    } ,} ")).
+Eval vm_compute in ("<<<M1295>>>" ++ check (runes_of_ascii "packet
+    len {
+@calculatedFrom( ""1""	) zchar[ 0 ] tag`u8 x,`
+    , @tag( 7 )repeat uint64 stringy `// not a comment` , @calculatedFrom( ""\n""
+)
+    @lengthOf(
+    trueish ) repeat _x zchar , @lengthOf( crc ) zchar[
+255  ]
+Foo`" ++ [233]%N ++ runes_of_ascii "`
+,} // trailing space ")).
+Eval vm_compute in ("<<<M3846>>>" ++ check (runes_of_ascii "root packet Logon {
+    @tag(0123456789)
+    @leftPad(' ')
+    Packet {
+        o @calculatedFrom(""a	b"") `tab	here`,
+    },
+    repeat leftPad i8i8 `line1
+        line2`,
+    i64 calculatedFrom,
+    float32 stringy @calculatedFrom(""`tick`""),
+}")).
+Eval vm_compute in ("<<<M1293>>>" ++ check (runes_of_ascii "root packet
+    charz {roots falsey	, @lengthOf(
+    // packet A { u8 x, }
+    u8x )T @lengthOf( x) `line1
+line2` /// triple
+,	x
+@calculatedFrom(
+    // a // b
+    ""// no comment"" ),  @leftPad
+    (
+' ' )	zchar[ 0123456789	] string_, }")).
+Eval vm_compute in ("<<<M4232>>>" ++ check (runes_of_ascii "options {
+    len = false// " ++ [128512]%N ++ runes_of_ascii " emoji
 }
 
 options {
-    repeatCount = '\x00';
-    x = 4294967296
-    len = false;
-    A = false;
-    Packet = """";
+    leftPad = ""`tick`"";
+    repeatCount = char[4294967296]
+    chars = ""`tick`""
+}
+
+packet trueish {
+    u16 crc,
+    @tag(0123456789)
+    string trueish `crlf
+        line`,
+}")).
+Eval vm_compute in ("<<<M2331>>>" ++ check (runes_of_ascii "MetaData Packet { }packet	asx  { @lengthOf( asx) falsey`crlf
+line`
+,
+    }
+    packet x	{uint32// @lengthOf(
+rootA	,u32 options1 `say ""hi""` , @tag( @tag( 7
+    )// packet A { u8 x, }
+msg_type @lengthOf(
+stringy	)	, }
+
+")).
+Eval vm_compute in ("<<<M2306>>>" ++ check (runes_of_ascii "MetaData Packet { }packet	asx  { @lengthOf( asx) falsey`crlf
+line`
+,
+    }
+    packet x	{uint32// @lengthOf(
+rootA	, ,u32 options1 `say ""hi""` , @tag( 7
+    )// packet A { u8 x, }
+msg_type @lengthOf(
+stringy	)	, }
+
+")).
+Eval vm_compute in ("<<<M2222>>>" ++ check (runes_of_ascii "MetaData Packet } {packet	asx  { @lengthOf( asx) falsey`crlf
+line`
+,
+    }
+    packet x	{uint32// @lengthOf(
+rootA	,u32 options1 `say ""hi""` , @tag( 7
+    )// packet A { u8 x, }
+msg_type @lengthOf(
+stringy	)	, }
+
+")).
+Eval vm_compute in ("<<<M1215>>>" ++ check (runes_of_ascii "packet lengthOf {
+repeat  lengthOf {
+    charz `
+` , string
+stringy,a1{	BodyLength , }
+, }
+    , pack Logon,	@rightPad (  ) zchar[007
+]
+x , } packet	Header  {@calculatedFrom( """ ++ [128512]%N ++ runes_of_ascii """
+    ) Logon`it's` ,} options { }")).
+Eval vm_compute in ("<<<M1002>>>" ++ check (runes_of_ascii "options
+    {roots =
+    uint8 ;
+    asx= ' '
+    // a // b
+    ; }
+options
+    // a // b
+    { }root packet  Packet { @lengthOf(T )@calculatedFrom(""abc""  ) @calculatedFrom( ""1"" )A // c
+lengthOf, }
+/// triple
+")).
+Eval vm_compute in ("<<<M2268>>>" ++ check (runes_of_ascii "MetaData Packet { }packet	asx  { @lengthOf( asx) falsey i32
+,
+    }
+    packet x	{uint32// @lengthOf(
+rootA	,u32 options1 `say ""hi""` , @tag( 7
+    )// packet A { u8 x, }
+msg_type @lengthOf(
+stringy	)	, }
+
+")).
+Eval vm_compute in ("<<<M3481>>>" ++ check (runes_of_ascii "packet orderItem
+    // c1
+{ // c2
+u8 // c3a
+  // c3b
+a
+    // c4
+,
+    // c5
+} root packet // c8
+newOrder // c9a
+  // c9b
+{
+    // c10
+orderItem // c11a
+  // c11b
+, // c12
+u8
+    // c13
+x // c14
+, } ")).
+Eval vm_compute in ("<<<M3664>>>" ++ check (runes_of_ascii "// " ++ [128512]%N ++ runes_of_ascii " emoji
+MetaData Foo {
 }
 
 MetaData x {
-    uint32 roots,
-    lengthOf o `
+}
+
+MetaData zchar {
+    options1 f32a,
+    int32 stringy,
+    string msg_type `
         `,
-    u32 x_y_z `line1
-        line2`,
-    int64 msg_type `crlf
-        line`,
-    string repeatCount `line1
-        line2`,
-    u128 stringy,
+    string T,
+    a1 trueish `{ , }`,
+    f32 BodyLength,
 }")).
-Eval vm_compute in ("<<<M3810>>>" ++ check (runes_of_ascii "  packet
-i8i8	// " ++ [27880; 37322]%N ++ runes_of_ascii "
-	  {
-@calculatedFrom(	""" ++ [233]%N ++ runes_of_ascii "t" ++ [233]%N ++ runes_of_ascii """ 
-)
-@calculatedFrom(
-""" ++ [28040; 24687]%N ++ runes_of_ascii """ ) repeat  leftPad	{uint64 A	@lengthOf(pack
-	) ,  As
-	@calculatedFrom(""\n""  ) `it's` ,	i64_ @calculatedFrom(	""" ++ [233]%N ++ runes_of_ascii "t" ++ [233]%N ++ runes_of_ascii """)
-
-    ,u64 
-u
-    ,
-}  , repeat 
-u8
-    /// triple
-    	// a // b
-    Logon `u8 x,`,
-    options1 
-@calculatedFrom(
-"""") 
-,repeat
-string packetx
-`{ , }`
-,  //
-		} ")).
-Eval vm_compute in ("<<<M9>>>" ++ check (runes_of_ascii "options { i64_ =// a // b
-""it's"" ;
-Foo =  ""\n""	; x_y_z = '\x00';
-len= '0'
-}	root packet Packet
-{ @tag(  0)  match	crc
-as A// " ++ [27880; 37322]%N ++ runes_of_ascii "
-{[ ""`tick`"",
-    ""`tick`""
-// @lengthOf(
-// a // b
-, ""packet""
-,
-    ""CRC32""
-    ,
-// " ++ [27880; 37322]%N ++ runes_of_ascii "
-//
-""\n""
-,""a\\""
-,
-    255 ]
-    : T // c
-} // @lengthOf(
-, repeat float64 x,
-zchar[ 00 // `tick` ""quote"" 'q'
-] chars,
-} //	t")).
-Eval vm_compute in ("<<<M3645>>>" ++ check (runes_of_ascii "options {
-}
-
-packet chars {
-    int64 i8i8 @calculatedFrom(""// no comment"") `line1
-        line2`,
-    @calculatedFrom(""`tick`"")
-    _x `" ++ [28040; 24687; 31867; 22411]%N ++ runes_of_ascii "`,
-    match float as BodyLength {
-        //
-        """ ++ [28040; 24687]%N ++ runes_of_ascii """ : x_y_z,
-        [
-            7, 10, 1, 3, """ ++ [233]%N ++ runes_of_ascii "t" ++ [233]%N ++ runes_of_ascii """,
-            ""x y""
-        ] : i64_,
-    },// a // b
-}
-
-packet uint8x {
-}// " ++ [27880; 37322]%N)).
-Eval vm_compute in ("<<<M733>>>" ++ check (runes_of_ascii "packet // a // b
-zchar {
-    char[] trueish @calculatedFrom(
-""CRC32""// `tick` ""quote"" 'q'
-), char[]
-    /// triple
-    MetaDataX
-, u8x @lengthOf(leftPad ) `
-`
-/// triple
-// c
-, @leftPad (  '\x00' )u32 u8x
-,} root packet metadata
-{ repeat As , // c
-uint64 trueish , x `two words`,}
-options {metadata =  '0' ; }
-")).
-Eval vm_compute in ("<<<M3806>>>" ++ check (runes_of_ascii "
-// top
-  packet	// c0a
-	// c0b
-B 	 // c1a
-// c1b
-      {u8 	 // c3a
-	// c3b
-	a // c4
-    ,
-
-    string 
-	    // c6
-
-	s 
-,	// c8
-    }  // c9
-    root 
-  // c10
-	packet  // c11
-    P  // c12
-    {u16	L
-	@lengthOf(	B
-
-), 	 // c19
-  B 	 // c20a
-  	// c20b
-    , u8 
-    // c22
-t , 
-} 	 // c25
-")).
-Eval vm_compute in ("<<<M1472>>>" ++ check (runes_of_ascii "root packet Foo // " ++ [128512]%N ++ runes_of_ascii " emoji
-{ } options {
-    // a // b
-    tag // `tick` ""quote"" 'q'
-= //	t
-""""
-    ; u8x packet zchar[0  ] }
-MetaData
-    int {zchar[ 10]
-lengthOf	`` , i64 u8x`// not a comment` ,MetaDataX pack// `tick` ""quote"" 'q'
-`crlf
-line`
-, Logon charz `crlf
-line`
-    ,
-    // a // b
-    }
-")).
-Eval vm_compute in ("<<<M1425>>>" ++ check (runes_of_ascii "root packet Foo // " ++ [128512]%N ++ runes_of_ascii " emoji
-{ { } options {
-    // a // b
-    tag // `tick` ""quote"" 'q'
-= //	t
-""""
-    ; u8x = zchar[0  ] }
-MetaData
-    int {zchar[ 10]
-lengthOf	`` , i64 u8x`// not a comment` ,MetaDataX pack// `tick` ""quote"" 'q'
-`crlf
-line`
-, Logon charz `crlf
-line`
-    ,
-    // a // b
-    }
-")).
-Eval vm_compute in ("<<<M1617>>>" ++ check (runes_of_ascii "root packet Foo // " ++ [128512]%N ++ runes_of_ascii " emoji
-{ } options {
-    // a // b
-    tag // `tick` ""quote"" 'q'
-= //	t
-""""
-    ; u8x = zchar[0  ] }
-MetaData
-    int {zchar[ 10]
-lengthOf	`` , i64 u8x`// not a comment` ,MetaDataX pack// `tick` ""quote"" 'q'
-`crlf
-line`
-, Logon charz `crlf
-" ++ [8232]%N ++ runes_of_ascii "line`
-    ,
-    // a // b
-    }
-")).
-Eval vm_compute in ("<<<M1537>>>" ++ check (runes_of_ascii "root packet Foo // " ++ [128512]%N ++ runes_of_ascii " emoji
-{ } options {
-    // a // b
-    tag // `tick` ""quote"" 'q'
-= //	t
-""""
-    ; u8x = zchar[0  ] }
-MetaData
-    int {zchar[ 10]
-lengthOf	`` : i64 u8x`// not a comment` ,MetaDataX pack// `tick` ""quote"" 'q'
-`crlf
-line`
-, Logon charz `crlf
-line`
-    ,
-    // a // b
-    }
-")).
-Eval vm_compute in ("<<<M1574>>>" ++ check (runes_of_ascii "root packet Foo // " ++ [128512]%N ++ runes_of_ascii " emoji
-{ } options {
-    // a // b
-    tag // `tick` ""quote"" 'q'
-= //	t
-""""
-    ; u8x = zchar[0  ] }
-MetaData
-    int {zchar[ 10]
-lengthOf	`` , i64 u8x`// not a comment` ,MetaDataX pack// `tick` ""quote"" 'q'
-`crlf
-line`
- Logon charz `crlf
-line`
-    ,
-    // a // b
-    }
-")).
-Eval vm_compute in ("<<<M4169>>>" ++ check (runes_of_ascii "root packet packetx {
-    uint32 x_y_z @calculatedFrom(""" ++ [233]%N ++ runes_of_ascii "t" ++ [233]%N ++ runes_of_ascii """),
-    @calculatedFrom(""{,}"")
-    float calculatedFrom `line1
-    line2`,
-    u16 Packet @lengthOf(f32a),
-    char[] o `tab	here`,
-    @calculatedFrom(""x y"")
-    T {
-        repeat i64 chars,
+Eval vm_compute in ("<<<M4027>>>" ++ check (runes_of_ascii "root packet Frame {
+    u8 K,
+    Logon first,
+    match K as Body {
+        1 : Logon,
+        2 : Logout,
     },
-    i16 roots,
-}// @lengthOf(")).
-Eval vm_compute in ("<<<M3652>>>" ++ check (runes_of_ascii "packet float {
-    @lengthOf(pack)
-    int16 string_,
 }
 
-options {
-    leftPad = true;
-    x = int16
-    Foo = 00
-    string_ = '\x00';
+packet Logon {
+    string user,
 }
 
-root packet Foo {
-    packetx @lengthOf(i8i8) `tab	here`,
-    int16 A,
-    @lengthOf(trueish)
-    repeat int zchar `a\`,
-}
-
-MetaData body {
+packet Logout {
+    u16 reason,
 }")).
-Eval vm_compute in ("<<<M601>>>" ++ check (runes_of_ascii "
-options { } root packet lengthOf { repeat//x
-int
-    , string trueish @lengthOf( MetaDataX ) `say ""hi""` , int64 x_y_z
-// trailing space 
-// packet A { u8 x, }
-, } packet // a // b
-calculatedFrom
-{@tag( 10
-// packet A { u8 x, }
-/// triple
-) zchar leftPad
-`it's` , }")).
-Eval vm_compute in ("<<<M302>>>" ++ check (runes_of_ascii "packet calculatedFrom {
-    @lengthOf( zchar )	char[]// `tick` ""quote"" 'q'
-chars
-    `line1
-line2` ,string
-    Logon @calculatedFrom( ""it's""  ), matchKey `say ""hi""`, @lengthOf( T
-    // c
-    )
-x_y_z @calculatedFrom(
-    ""it's"" ) `// not a comment`	,
-    }")).
-Eval vm_compute in ("<<<M4448>>>" ++ check (runes_of_ascii "// top
-		options
-    // c0
-    {
-// c1
-	FixedStringPadFromLeft = 
-// c3
-	true  // c4
-; 
-    // c5
-    } 
-// c6
-  root
-// c7
-	packet
-P // c9a
-// c9b
-  {
-// c10
-char[ 
-	// c11
-  4// c12a
-// c12b
-      ] z 
-
-    // c14
-, 	 // c15a
-
-// c15b
-  }")).
-Eval vm_compute in ("<<<M3827>>>" ++ check (runes_of_ascii "packet _x {
-    repeat packetx {
-        match Pad as roots {
-            ""// no comment"" : tag,
-            [""" ++ [233]%N ++ runes_of_ascii "t" ++ [233]%N ++ runes_of_ascii """, ""\" ++ [233]%N ++ runes_of_ascii """] : As,
-            3 : options1,
-            3 : charz,
-        },//
-    },
-    repeat Foo `line1
-        line2`,
-}")).
-Eval vm_compute in ("<<<M3902>>>" ++ check (runes_of_ascii "MetaData Packet {
-}
-
-packet asx {
-    @lengthOf(asx)
-    falsey falsey `crlf
-        line`,
-}
-
-packet x {
-    uint32 rootA,
-    u32 options1 `say ""hi""`,
-    @tag(7)
+Eval vm_compute in ("<<<M1098>>>" ++ check (runes_of_ascii "packet falsey {
+    @leftPad () // packet A { u8 x, }
+zchar[ 007
+    ] i8i8 @calculatedFrom( """ ++ [28040; 24687]%N ++ runes_of_ascii """),a1 {float32
+Foo @lengthOf( u8x
+) ,
+},chars , repeat char[] roots `" ++ [28040; 24687; 31867; 22411]%N ++ runes_of_ascii "` ,}
+")).
+Eval vm_compute in ("<<<M804>>>" ++ check (runes_of_ascii "options
+{ calculatedFrom=
     // packet A { u8 x, }
-    msg_type @lengthOf(stringy),
-}")).
-Eval vm_compute in ("<<<M2261>>>" ++ check (runes_of_ascii "MetaData Packet { }packet	asx  { @lengthOf( asx) falsey falsey`crlf
-line`
-,
-    }
-    packet x	{uint32// @lengthOf(
-rootA	,u32 options1 `say ""hi""` , @tag( 7
-    )// packet A { u8 x, }
-msg_type @lengthOf(
-stringy	)	, }
-
-")).
-Eval vm_compute in ("<<<M4256>>>" ++ check (runes_of_ascii "packet u8x {
+    """ ++ [28040; 24687]%N ++ runes_of_ascii """ ;
+    u = false BodyLength=
     // `tick` ""quote"" 'q'
-    //x
-    Pad @lengthOf(_x),
-}
-
-// `tick` ""quote"" 'q'
+    65535
+; msg_type  = 0
+    lengthOf= true
+    ;}
+")).
+Eval vm_compute in ("<<<M1357>>>" ++ check (runes_of_ascii "root packet  len{
+@rightPad (
+'0' )
+T {
+/// triple
 // c
-packet body {
-    @rightPad('\x00')
-    asx `it's`,
+match charz
+as crc
+{ 3  :// a // b
+BodyLength 42 : stringy ""a\\"" :options1 // c
 }
-
-packet u128 {
-}
-
-packet stringy {
-    @rightPad()
-    chars,
-}")).
-Eval vm_compute in ("<<<M2381>>>" ++ check (runes_of_ascii "MetaData Packet { }packet	asx  { @lengthOf( asx) falsey`crlf
-line`
-,
-    }
-    packet x	{uint32// @lengthOf(
-rootA	,u32 options1 `say ""hi""` , @tag( 7
-    )// packet A { u8 x, }
-""msg_type @lengthOf(
-stringy	)	, }
-
-")).
-Eval vm_compute in ("<<<M2327>>>" ++ check (runes_of_ascii "MetaData Packet { }packet	asx  { @lengthOf( asx) falsey`crlf
-line`
-,
-    }
-    packet x	{uint32// @lengthOf(
-rootA	,u32 options1 `say ""hi""` @tag( , 7
-    )// packet A { u8 x, }
-msg_type @lengthOf(
-stringy	)	, }
-
-")).
-Eval vm_compute in ("<<<M3488>>>" ++ check (runes_of_ascii "
-
-  options	{	FixedStringPadChar
-
-    = '0';
-	}packet
-    Q
-{  zchar[
-
-4	]	z
-
-    , @rightPad
-(
-'\x00'
-
-)
-
-char[3] n,char[ 
-5  ]
-
-d
-	, }root	packet
-R
-    { Q
-    ,
-zchar[
-8  ]top
-	,	repeat 
-zchar[
-2 
-] zs,
-	}")).
-Eval vm_compute in ("<<<M2318>>>" ++ check (runes_of_ascii "MetaData Packet { }packet	asx  { @lengthOf( asx) falsey`crlf
-line`
-,
-    }
-    packet x	{uint32// @lengthOf(
-rootA	,u32 """" `say ""hi""` , @tag( 7
-    )// packet A { u8 x, }
-msg_type @lengthOf(
-stringy	)	, }
-
-")).
-Eval vm_compute in ("<<<M4093>>>" ++ check (runes_of_ascii "MetaData Packet {
-}
-
-packet asx {
-    @lengthOf(asx)
-    falsey `crlf
-    line`,
-}
-
-packet x {
-    uint32 rootA,
-    u32 options1,
-    @tag(7)
-    // packet A { u8 x, }
-    msg_type @lengthOf(stringy),
-}")).
-Eval vm_compute in ("<<<M680>>>" ++ check (runes_of_ascii "packet len{} options{
-o =
-uint32 ;
-    uint8x
-= 65535
-    // trailing space 
-    ; crc =
-    true ;
-    tag=
-// " ++ [27880; 37322]%N ++ runes_of_ascii "
-// a // b
-i16 ; } packet
-// `tick` ""quote"" 'q'
-// " ++ [128512]%N ++ runes_of_ascii " emoji
-u8x
-{ pack body ,  }
-")).
-Eval vm_compute in ("<<<M480>>>" ++ check (runes_of_ascii "MetaData
-    u
-{ string_ BodyLength// packet A { u8 x, }
-,
-char T ``
-,// " ++ [27880; 37322]%N ++ runes_of_ascii "
-u128 Logon , string
-crc
-, u8 matchKey , u8  i64_ // packet A { u8 x, }
-`" ++ [233]%N ++ runes_of_ascii "`
-,
-    // trailing space 
-    } // c")).
-Eval vm_compute in ("<<<M911>>>" ++ check (runes_of_ascii "MetaData leftPad	{ char[] x_y_z `say ""hi""` , }  options { string_
-    // " ++ [128512]%N ++ runes_of_ascii " emoji
-    = ""CRC32""
-} options {_x = ""1"" ;Header= f64; }packet lengthOf
-{ }	packet x_y_z
-{
-//x
-// " ++ [27880; 37322]%N ++ runes_of_ascii "
-} //")).
-Eval vm_compute in ("<<<M4317>>>" ++ check (runes_of_ascii "packet
-	lengthOf {  options1 {  calculatedFrom`line1
-line2` ,
-
-}
-	,
-
-    @tag(
-    4294967296
-
-)
-
-    match
-
-_x	as msg_type
-
-{ ""\" ++ [233]%N ++ runes_of_ascii """ 	 // @lengthOf(
-	:o
-    , }  ,
-}
-")).
-Eval vm_compute in ("<<<M640>>>" ++ check (runes_of_ascii "root  packet calculatedFrom {@rightPad	( )
-    match pack
-as
-repeatCount //
-{ 007 : pack , } ,	}
-options{
-As =	00
+    , } ,
+} // a // b")).
+Eval vm_compute in ("<<<M1361>>>" ++ check (runes_of_ascii "options { T
+= u64 // trailing space 
+uint8x = """ ++ [128512]%N ++ runes_of_ascii """ ; chars
+    = char[	0123456789 ]	;Z9_//	t
+= ""// no comment""} MetaData
+    x_y_z {
+} // `tick` ""quote"" 'q'")).
+Eval vm_compute in ("<<<M353>>>" ++ check (runes_of_ascii "packet x  {match u128
+as stringy// " ++ [128512]%N ++ runes_of_ascii " emoji
+{ // a // b
+[ """ ++ [28040; 24687]%N ++ runes_of_ascii """
     //	t
-    T
-    = '\x00' ;	pack =
-    00 } // c")).
-Eval vm_compute in ("<<<M1252>>>" ++ check (runes_of_ascii "  root packet pack  {
-    /// triple
-    @calculatedFrom(
-""it's"" ) //
-zchar[ 0123456789
-    ] packetx
-@calculatedFrom( ""CRC32"" ) , char[]
-BodyLength , }
-// c
+    ,	42 , ""// no comment"" // a // b
+,""1""] :MetaDataX
+, ""it's"" :o	,} ,
+    }
 ")).
-Eval vm_compute in ("<<<M4048>>>" ++ check (runes_of_ascii "packet A {
-    Inner {
-        match k as n {
-            [
-                1, 22, 007, 4, 5,
-                66
-            ] : B,
-        },
+Eval vm_compute in ("<<<M3392>>>" ++ check (runes_of_ascii "MetaData _x
+    // c1
+{
+    // c2
+zchar[ 4294967296 // c4a
+  // c4b
+] lengthOf // c6
+`// not a comment` // c7a
+  // c7b
+,
+    // c8
+}
+    // c9
+")).
+Eval vm_compute in ("<<<M3782>>>" ++ check (runes_of_ascii "packet crc {
+    @lengthOf(calculatedFrom)
+    i64_ {
+        uint64 _x,
     },
+    @rightPad('0')
+    uint8x,
+    // packet A { u8 x, }
 }")).
-Eval vm_compute in ("<<<M1296>>>" ++ check (runes_of_ascii "packet
-    u128 { u128  @lengthOf( matchKey
-)
-,	u64 //x
-crc	`a\`
-,@calculatedFrom(
-""x y"" )
-float32 zchar  ,
-repeat char[007 ] uint8x ,
-a1
-, }
-")).
-Eval vm_compute in ("<<<M1688>>>" ++ check (runes_of_ascii "root packet /// triple
+Eval vm_compute in ("<<<M4405>>>" ++ check (runes_of_ascii "root packet Packet {
+    leftPad As,
+    char[] string_,
+}
+
+MetaData x {
+    a1 u128 `u8 x,`,
+    // a // b
+    // packet A { u8 x, }
+}")).
+Eval vm_compute in ("<<<M1734>>>" ++ check (runes_of_ascii "root packet /// triple
 rootA {	i32
 MetaDataX@calculatedFrom( ""CRC32"" ) `line1
-line2` , } MetaData BodyLength BodyLength {
-u8
-rootA, } // c")).
-Eval vm_compute in ("<<<M4395>>>" ++ check (runes_of_ascii "
-
-  packet	calculatedFrom
-
-    {@tag( 4294967296 )u
-
-    msg_type
-, char[ 3
-    ]
-    crc@lengthOf( // c
-
-len
-)
-    `u8 x,`
-    ,	}")).
-Eval vm_compute in ("<<<M3390>>>" ++ check (runes_of_ascii "// top
-MetaData // c0
-_x // c1
-{ // c2
-zchar[ // c3
-4294967296 // c4
-] // c5
-lengthOf // c6
-`// not a comment` // c7
-, // c8
-} // c9
-")).
-Eval vm_compute in ("<<<M1678>>>" ++ check (runes_of_ascii "root packet /// triple
-rootA {	i32
-MetaDataX@calculatedFrom( ""CRC32"" ) `line1
-line2` , } } MetaData BodyLength {
-u8
-rootA, } // c")).
-Eval vm_compute in ("<<<M1674>>>" ++ check (runes_of_ascii "root packet /// triple
-rootA {	i32
-MetaDataX@calculatedFrom( ""CRC32"" ) `line1
-line2` } , MetaData BodyLength {
-u8
-rootA, } // c")).
-Eval vm_compute in ("<<<M888>>>" ++ check (runes_of_ascii "MetaData u8x {
-_x Z9_, char[ 7] Logon `it's` ,char[] zchar ,
-    u
-Z9_`two words`
-, u16 f32a `a\` , zchar[ 42 ]
-    f32a ,}
-")).
-Eval vm_compute in ("<<<M1650>>>" ++ check (runes_of_ascii "root packet /// triple
-rootA {	i32
-int32@calculatedFrom( ""CRC32"" ) `line1
 line2` , } MetaData BodyLength {
 u8
-rootA, } // c")).
-Eval vm_compute in ("<<<M1346>>>" ++ check (runes_of_ascii "MetaData
-    Logon {string
-uint8x , msg_type
-    Z9_  `{ , }`
-    , f64 As`it's`
-//x
-// packet A { u8 x, }
-, uint8	o , }
-")).
-Eval vm_compute in ("<<<M1811>>>" ++ check (runes_of_ascii "packet
-    Pad // a // b
-{ i8i8 @calculatedFrom( ""a	b"") ) `u8 x,` ,
-} options{ float// " ++ [128512]%N ++ runes_of_ascii " emoji
-= f64 i64_
-=//	t
-00 }
-")).
-Eval vm_compute in ("<<<M3055>>>" ++ check (runes_of_ascii "packet A {
+roo'1'tA, } // c")).
+Eval vm_compute in ("<<<M4228>>>" ++ check (runes_of_ascii "packet A {
     match k as n {
-        ""x\
-y"" : B,
-        [""x\
-y"", 1] : C,
-        [1,2,3,4,5,""x\
-y""] : D,
+        [
+            1, 22, ""c c"", 4, 5,
+            ""f"", 7
+        ] : B,
+        2 : C,
     },
 }")).
-Eval vm_compute in ("<<<M3728>>>" ++ check (runes_of_ascii "packet 
-A 
-{
-    u16
-	len
-@lengthOf(
-	body	)
+Eval vm_compute in ("<<<M1712>>>" ++ check (runes_of_ascii "root packet /// triple
+rootA {	i32
+MetaDataX@calculatedFrom( ""CRC32"" ) `line1
+line2` , } MetaData BodyLength {
+u8
+rootA,  // c")).
+Eval vm_compute in ("<<<M4433>>>" ++ check (runes_of_ascii "
+packet
 
-`
-x` ,
-u32
-    crc@calculatedFrom( ""CRC32""
-	) `
-x`
-,	string  body,
-} ")).
-Eval vm_compute in ("<<<M4133>>>" ++ check (runes_of_ascii "// `tick` ""quote"" 'q'
-  packet
-As {
-	u64 msg_type  ,
+calculatedFrom {  @tag(
 
-    @lengthOf( trueish
-	)
+4294967296 
+)  u 
+msg_type// c
+  ,
 
-lengthOf
-int  `a\` , //
-      }")).
-Eval vm_compute in ("<<<M1840>>>" ++ check (runes_of_ascii "packet
-    Pad // a // b
-{ i8i8 @calculatedFrom( ""a	b"") `u8 x,` ,
-} options{ // " ++ [128512]%N ++ runes_of_ascii " emoji
-= f64 i64_
-=//	t
-00 }
+char[  3
+	]crc
+    @lengthOf( len )`u8 x,` ,
+
+    } ")).
+Eval vm_compute in ("<<<M4369>>>" ++ check (runes_of_ascii "packet A {
+    match k as n {
+        [
+            1, 22, 007, 4, 5,
+            66
+        ] : B,
+        2 : C,
+    },
+}")).
+Eval vm_compute in ("<<<M1195>>>" ++ check (runes_of_ascii "options /// triple
+{ tag =char[ 00 ]
+; } root
+    packet
+    // @lengthOf(
+    Header { /// triple
+repeat  packetx , }
 ")).
-Eval vm_compute in ("<<<M1391>>>" ++ check (runes_of_ascii "options
+Eval vm_compute in ("<<<M4044>>>" ++ check (runes_of_ascii "
+packet  
+  // c
+calculatedFrom 
 {
-x_y_z =
-    uint32 asx = float64 body  = '0'
-u = '\x00' ; Header = '0'
-;  }
-    options { } // " ++ [27880; 37322]%N)).
-Eval vm_compute in ("<<<M1803>>>" ++ check (runes_of_ascii "packet
-    Pad // a // b
-{ i8i8 int16 ""a	b"") `u8 x,` ,
+
+@tag(4294967296  )	u
+msg_type,
+char[3
+    ]
+
+crc @lengthOf( len ) `u8 x,`
+	, }
+
+")).
+Eval vm_compute in ("<<<M1787>>>" ++ check (runes_of_ascii "packet
+    { // a // b
+Pad i8i8 @calculatedFrom( ""a	b"") `u8 x,` ,
 } options{ float// " ++ [128512]%N ++ runes_of_ascii " emoji
 = f64 i64_
 =//	t
 00 }
 ")).
-Eval vm_compute in ("<<<M2997>>>" ++ check (runes_of_ascii "packet A {
+Eval vm_compute in ("<<<M1835>>>" ++ check (runes_of_ascii "packet
+    Pad // a // b
+{ i8i8 @calculatedFrom( ""a	b"") `u8 x,` ,
+} options float// " ++ [128512]%N ++ runes_of_ascii " emoji
+= f64 i64_
+=//	t
+00 }
+")).
+Eval vm_compute in ("<<<M1785>>>" ++ check (runes_of_ascii "packet
+     // a // b
+{ i8i8 @calculatedFrom( ""a	b"") `u8 x,` ,
+} options{ float// " ++ [128512]%N ++ runes_of_ascii " emoji
+= f64 i64_
+=//	t
+00 }
+")).
+Eval vm_compute in ("<<<M1701>>>" ++ check (runes_of_ascii "root packet /// triple
+rootA {	i32
+MetaDataX@calculatedFrom( ""CRC32"" ) `line1
+line2` , } MetaData BodyLength {")).
+Eval vm_compute in ("<<<M222>>>" ++ check (runes_of_ascii "MetaData float { }  options {
+msg_type=""a	b""
+    i8i8	= true stringy = ""CRC32""
+    } options { len
+= ""\" ++ [233]%N ++ runes_of_ascii """ }")).
+Eval vm_compute in ("<<<M2994>>>" ++ check (runes_of_ascii "packet A {
   match k as n {
-    [1, 22, ""c c"", 4, 5, ""f"", 7, 8, ""i"", 10, 11, ""l""] : B,
+    [1, ""bb"", 007, ""d"", 5, ""f"", 7, ""h"", 9, ""j"", 11, ""l""] : B
     2 : C
   },
 }")).
-Eval vm_compute in ("<<<M3367>>>" ++ check (runes_of_ascii "packet calculatedFrom { @tag( 4294967296 ) u msg_type , char[ 3 ] crc @lengthOf( len // c
-) `u8 x,` , }")).
-Eval vm_compute in ("<<<M2981>>>" ++ check (runes_of_ascii "packet A {
-  match k as n {
-    [1, ""bb"", 007, ""d"", 5, ""f"", 7, ""h"", 9, ""j"", 11] : B
-    2 : C
-  },
-}")).
-Eval vm_compute in ("<<<M2985>>>" ++ check (runes_of_ascii "packet A {
-  match k as n {
-    [1, 22, ""c c"", 4, 5, ""f"", 7, 8, ""i"", 10, 11] : B
-    2 : C
-  },
-}")).
-Eval vm_compute in ("<<<M3217>>>" ++ check (runes_of_ascii "packet
+Eval vm_compute in ("<<<M3342>>>" ++ check (runes_of_ascii "packet calculatedFrom
 // c
-Logon { @tag( 42 ) @rightPad ( ' ' ) @leftPad ( ) repeat trueish { string T , } , }")).
-Eval vm_compute in ("<<<M3249>>>" ++ check (runes_of_ascii "packet Logon { @tag( 42 ) @rightPad ( ' ' ) @leftPad ( ) repeat trueish { string
+{ @tag( 4294967296 ) u msg_type , char[ 3 ] crc @lengthOf( len ) `u8 x,` , }")).
+Eval vm_compute in ("<<<M3374>>>" ++ check (runes_of_ascii "packet calculatedFrom { @tag( 4294967296 ) u msg_type , char[ 3 ] crc @lengthOf( len ) `u8 x,` ,
 // c
-T , } , }")).
-Eval vm_compute in ("<<<M2976>>>" ++ check (runes_of_ascii "packet A {
-  match k as n {
-    [1, 22, 007, 4, 5, 66, 7, 8, 9, 10, 11] : B,
-    2 : C
-  },
 }")).
+Eval vm_compute in ("<<<M1859>>>" ++ check (runes_of_ascii "packet
+    Pad // a // b
+{ i8i8 @calculatedFrom( ""a	b"") `u8 x,` ,
+} options{ float// " ++ [128512]%N ++ runes_of_ascii " emoji
+= f64")).
+Eval vm_compute in ("<<<M3185>>>" ++ check (runes_of_ascii "// top
+MetaData // c0
+zchar // c1
+{ // c2
+zchar[ // c3
+3 // c4
+] // c5
+Pad // c6
+, // c7
+} // c8
+")).
+Eval vm_compute in ("<<<M3218>>>" ++ check (runes_of_ascii "packet Logon // c
+{ @tag( 42 ) @rightPad ( ' ' ) @leftPad ( ) repeat trueish { string T , } , }")).
+Eval vm_compute in ("<<<M3250>>>" ++ check (runes_of_ascii "packet Logon { @tag( 42 ) @rightPad ( ' ' ) @leftPad ( ) repeat trueish { string T // c
+, } , }")).
+Eval vm_compute in ("<<<M4136>>>" ++ check (runes_of_ascii "packet o { @tag(
+
+42
+) repeat	x
+    {	char[ 0123456789
+// c
+    ]i64_	,
+},  }
+options
+{ }
+
+")).
 Eval vm_compute in ("<<<M2943>>>" ++ check (runes_of_ascii "packet A {
   match k as n {
     [""a"", 22, ""c c"", 4, ""e"", 66, ""g"", 8] : B,
     2 : C
   },
 }")).
-Eval vm_compute in ("<<<M1256>>>" ++ check (runes_of_ascii "options { leftPad= 42 matchKey
-= ""CRC32"" // `tick` ""quote"" 'q'
-; lengthOf = ""{,}"" ;
-}
-")).
-Eval vm_compute in ("<<<M2914>>>" ++ check (runes_of_ascii "packet A {
+Eval vm_compute in ("<<<M2942>>>" ++ check (runes_of_ascii "packet A {
   match k as n {
-    [""a"", ""bb"", ""c c"", ""d"", ""e"", ""f""] : B
+    [1, ""bb"", 007, ""d"", 5, ""f"", 7, ""h""] : B
     2 : C
   },
 }")).
-Eval vm_compute in ("<<<M1971>>>" ++ check (runes_of_ascii "root
+Eval vm_compute in ("<<<M4458>>>" ++ check (runes_of_ascii "
+
+  MetaData _x // c
+	{
+    zchar[  4294967296  ]
+lengthOf
+    `// not a comment` , }
+")).
+Eval vm_compute in ("<<<M1993>>>" ++ check (runes_of_ascii "root
 packet crc
-     f32a @calculatedFrom( """ ++ [233]%N ++ runes_of_ascii "t" ++ [233]%N ++ runes_of_ascii """ )
-    `say ""hi""`, lengthOf `` ,  }")).
-Eval vm_compute in ("<<<M3293>>>" ++ check (runes_of_ascii "
-// c
-packet o { @tag( 42 ) repeat x { char[ 0123456789 ] i64_ , } , } options { }")).
-Eval vm_compute in ("<<<M3308>>>" ++ check (runes_of_ascii "packet o { @tag( 42 ) repeat x // c
-{ char[ 0123456789 ] i64_ , } , } options { }")).
-Eval vm_compute in ("<<<M1876>>>" ++ check (runes_of_ascii "packet
-    Pad // a // b
-{ i8i8 @calculatedFrom( ""a	b"") `u8 x,` ,
-} options{ fl")).
-Eval vm_compute in ("<<<M2009>>>" ++ check (runes_of_ascii "root
-packet crc
+    { f32a @calculatedFrom( """ ++ [233]%N ++ runes_of_ascii "t" ++ [233]%N ++ runes_of_ascii """ `say ""hi""`
+    ), lengthOf `` ,  }")).
+Eval vm_compute in ("<<<M4176>>>" ++ check (runes_of_ascii "packet A {
+    B b `x
+        `,
+    B `x
+        `,
+    repeat B bs `x
+        `,
+}")).
+Eval vm_compute in ("<<<M1965>>>" ++ check (runes_of_ascii "root
+as crc
     { f32a @calculatedFrom( """ ++ [233]%N ++ runes_of_ascii "t" ++ [233]%N ++ runes_of_ascii """ )
-    `say ""hi""`, } `` ,  }")).
-Eval vm_compute in ("<<<M332>>>" ++ check (runes_of_ascii "options
-    { packetx =
-    ' ' ;}options {	falsey =
-// " ++ [128512]%N ++ runes_of_ascii " emoji
+    `say ""hi""`, lengthOf `` ,  }")).
+Eval vm_compute in ("<<<M3317>>>" ++ check (runes_of_ascii "packet o { @tag( 42 ) repeat x { char[ 0123456789 ]
 // c
-00 ; }")).
-Eval vm_compute in ("<<<M2177>>>" ++ check (runes_of_ascii "root
-    // `tick` ""quote"" 'q'
-    packet As { trueish Packet Packet , }
-")).
-Eval vm_compute in ("<<<M4178>>>" ++ check (runes_of_ascii "// c
-MetaData _x {
-    zchar[4294967296] lengthOf `// not a comment`,
+i64_ , } , } options { }")).
+Eval vm_compute in ("<<<M3467>>>" ++ check (runes_of_ascii "
+
+  root 
+packet
+    P	{ u8 s_u8
+
+, 
+repeat
+
+    u8 r_u8 ,	u16 b_len
+    ,  } ")).
+Eval vm_compute in ("<<<M3632>>>" ++ check (runes_of_ascii "  packet A { match
+k
+
+    as
+
+n{	[1  ,	22, 007
+,
+
+4
+    ]
+: B 2	: 
+C
+}
+, }")).
+Eval vm_compute in ("<<<M3881>>>" ++ check (runes_of_ascii "packet A {
+    match k as n {
+        [""a"", 22] : B,
+        2 : C,
+    },
 }")).
-Eval vm_compute in ("<<<M3412>>>" ++ check (runes_of_ascii "MetaData _x { zchar[ 4294967296 ] lengthOf `// not a comment` ,
+Eval vm_compute in ("<<<M947>>>" ++ check (runes_of_ascii "
+packet Packet
+    // c
+    { repeat Pad
+    leftPad
+,
+    //	t
+    } 	 ")).
+Eval vm_compute in ("<<<M3414>>>" ++ check (runes_of_ascii "MetaData _x { zchar[ 4294967296 ] lengthOf `// not a comment` , }
 // c
-}")).
-Eval vm_compute in ("<<<M2197>>>" ++ check (runes_of_ascii "# root
+")).
+Eval vm_compute in ("<<<M3409>>>" ++ check (runes_of_ascii "MetaData _x { zchar[ 4294967296 ] lengthOf `// not a comment` // c
+, }")).
+Eval vm_compute in ("<<<M2182>>>" ++ check (runes_of_ascii "root
     // `tick` ""quote"" 'q'
-    packet As { trueish Packet , }
+    packet As { trueish Packet , , }
 ")).
-Eval vm_compute in ("<<<M918>>>" ++ check (runes_of_ascii "MetaData u128 {options1 // a // b
-falsey ,
-zchar[ 007 //
-] x
-, }
+Eval vm_compute in ("<<<M3378>>>" ++ check (runes_of_ascii "// top
+packet
+    // c0
+lengthOf
+    // c1
+{
+    // c2
+}
+    // c3
 ")).
-Eval vm_compute in ("<<<M2166>>>" ++ check (runes_of_ascii "root
-    // `tick` ""quote"" 'q'
-    packet As  trueish Packet , }
-")).
-Eval vm_compute in ("<<<M3266>>>" ++ check (runes_of_ascii "// top
-options // c0
-{ // c1
-u8x // c2
-= // c3
-3 // c4
-} // c5
-")).
-Eval vm_compute in ("<<<M3856>>>" ++ check (runes_of_ascii "packet msg_type {
-    repeat string BodyLength `two words`,
-}")).
-Eval vm_compute in ("<<<M3462>>>" ++ check (runes_of_ascii "root packet P {
-    repeat string ss,
-    repeat u16 ns,
+Eval vm_compute in ("<<<M919>>>" ++ check (runes_of_ascii "MetaData matchKey{} MetaData
+    rootA{//	t
+falsey stringy
+,
 }
 ")).
+Eval vm_compute in ("<<<M2867>>>" ++ check (runes_of_ascii "packet A {
+  match k as n {
+    [1, ""bb""] : B,
+    2 : C
+  },
+}")).
+Eval vm_compute in ("<<<M3024>>>" ++ check (runes_of_ascii "MetaData M {
+    u8 x `a
+    b
+  c`,
+    T t `a
+    b
+  c`,
+}")).
+Eval vm_compute in ("<<<M3767>>>" ++ check (runes_of_ascii "packet msg_type {
+    char[00] x_y_z @lengthOf(msg_type),
+}")).
 Eval vm_compute in ("<<<M2858>>>" ++ check (runes_of_ascii "packet A {
   match k as n {
     [1] : B,
     2 : C
   },
 }")).
-Eval vm_compute in ("<<<M1907>>>" ++ check (runes_of_ascii "
-packet	As @calculatedFrom( {//x
+Eval vm_compute in ("<<<M1899>>>" ++ check (runes_of_ascii "
+'\x00'	As { @calculatedFrom(//x
 ""{,}""	)lengthOf , } 	 ")).
 Eval vm_compute in ("<<<M3178>>>" ++ check (runes_of_ascii "packet A { repeat // a
  B // b
  b // c
  `d` // e
  , }")).
-Eval vm_compute in ("<<<M1759>>>" ++ check (runes_of_ascii "options { }options '\x00'  } // `tick` ""quote"" 'q'")).
-Eval vm_compute in ("<<<M2820>>>" ++ check (runes_of_ascii "match char[] , uint64 as i64 root uint32 MetaData")).
-Eval vm_compute in ("<<<M1762>>>" ++ check (runes_of_ascii "options { }options {  } } // `tick` ""quote"" 'q'")).
-Eval vm_compute in ("<<<M2414>>>" ++ check (runes_of_ascii "MetaData A
-{
-i64
-a" ++ [769]%N ++ runes_of_ascii "b	, } // `tick` ""quote"" 'q'")).
-Eval vm_compute in ("<<<M1990>>>" ++ check (runes_of_ascii "root
+Eval vm_compute in ("<<<M1995>>>" ++ check (runes_of_ascii "root
 packet crc
-    { f32a @calculatedFrom(")).
-Eval vm_compute in ("<<<M397>>>" ++ check (runes_of_ascii "
-options { string_
-=
-    zchar[ 007
-] ; }")).
-Eval vm_compute in ("<<<M3189>>>" ++ check (runes_of_ascii "
-// c
-MetaData zchar { zchar[ 3 ] Pad , }")).
-Eval vm_compute in ("<<<M2761>>>" ++ check (runes_of_ascii "int8 @calculatedFrom( packet i32 ) as u8")).
-Eval vm_compute in ("<<<M2141>>>" ++ check (runes_of_ascii "`MetaData x
-{// " ++ [128512]%N ++ runes_of_ascii " emoji
+    { f32a @calculatedFrom( """ ++ [233]%N ++ runes_of_ascii "t" ++ [233]%N ++ runes_of_ascii """")).
+Eval vm_compute in ("<<<M3625>>>" ++ check (runes_of_ascii "options {
+    float = ' ';
+    _x = 4294967296;
+}")).
+Eval vm_compute in ("<<<M1771>>>" ++ check (runes_of_ascii "options " ++ [65279]%N ++ runes_of_ascii " { }options {  } // `tick` ""quote"" 'q'")).
+Eval vm_compute in ("<<<M1780>>>" ++ check (runes_of_ascii "opt\ions { }options {  } // `tick` ""quote"" 'q'")).
+Eval vm_compute in ("<<<M1742>>>" ++ check (runes_of_ascii "options  }options {  } // `tick` ""quote"" 'q'")).
+Eval vm_compute in ("<<<M3180>>>" ++ check (runes_of_ascii "packet A { char[ // a
+ 3 // b
+ ] // c
+ x, }")).
+Eval vm_compute in ("<<<M2848>>>" ++ check (runes_of_ascii "char[] : root uint64 packet i64 float32 3")).
+Eval vm_compute in ("<<<M2758>>>" ++ check (runes_of_ascii "int32 char[] i32 = float32 float32 char[")).
+Eval vm_compute in ("<<<M2137>>>" ++ check (runes_of_ascii "MetaData x
+#{// " ++ [128512]%N ++ runes_of_ascii " emoji
 i16 stringy , }")).
 Eval vm_compute in ("<<<M2652>>>" ++ check (runes_of_ascii "MetaData M { match k as n { 1 : B }, }")).
-Eval vm_compute in ("<<<M3181>>>" ++ check (runes_of_ascii "packet A { u8 x,// a
-
-
-// b
-
- u8 y, }")).
-Eval vm_compute in ("<<<M2696>>>" ++ check (runes_of_ascii "Ql.'X9""L&.Qjt%tErjR_Lrg0|C7=a^RM`;F")).
-Eval vm_compute in ("<<<M2151>>>" ++ check (runes_of_ascii "MetaData x
-{// " ++ [128512]%N ++ runes_of_ascii " emoji
-i16 " ++ [21517; 23383]%N ++ runes_of_ascii " , }")).
-Eval vm_compute in ("<<<M3801>>>" ++ check (runes_of_ascii "packet A {
-    u8 x `d" ++ [65279]%N ++ runes_of_ascii "`,// c" ++ [65279]%N ++ runes_of_ascii "
+Eval vm_compute in ("<<<M2818>>>" ++ check ([65533; 65533; 28; 65533]%N ++ runes_of_ascii "9i%" ++ [65533]%N ++ runes_of_ascii "V" ++ [65533]%N ++ runes_of_ascii "Q" ++ [65533; 65533; 65533]%N ++ runes_of_ascii "[" ++ [65533; 65533; 65533]%N ++ runes_of_ascii "Z" ++ [65533; 65533; 65533]%N ++ runes_of_ascii ">F" ++ [65533]%N ++ runes_of_ascii "|" ++ [65533; 65533; 65533; 65533; 65533]%N ++ runes_of_ascii "f" ++ [9700; 4; 65533; 65533; 65533]%N)).
+Eval vm_compute in ("<<<M2749>>>" ++ check (runes_of_ascii "uint16 """ ++ [128512]%N ++ runes_of_ascii """ uint16 float32 true root")).
+Eval vm_compute in ("<<<M2690>>>" ++ check (runes_of_ascii "[ : : @lengthOf( root true as 255")).
+Eval vm_compute in ("<<<M1646>>>" ++ check (runes_of_ascii "root packet /// triple
+rootA {")).
+Eval vm_compute in ("<<<M3078>>>" ++ check (runes_of_ascii "packet A {
+ u8 x `d" ++ [133]%N ++ runes_of_ascii "`, // c" ++ [133]%N ++ runes_of_ascii "
 }")).
-Eval vm_compute in ("<<<M2802>>>" ++ check (runes_of_ascii "C" ++ [2]%N ++ runes_of_ascii "R" ++ [65533]%N ++ runes_of_ascii "L" ++ [16; 15; 65533; 65533; 65533]%N ++ runes_of_ascii "^o\8" ++ [65533; 65533]%N ++ runes_of_ascii "+Y" ++ [65533; 65533]%N ++ runes_of_ascii "9" ++ [65533; 65533]%N ++ runes_of_ascii "A" ++ [65533; 65533; 28]%N ++ runes_of_ascii "2+" ++ [15]%N)).
-Eval vm_compute in ("<<<M2244>>>" ++ check (runes_of_ascii "MetaData Packet { }packet	asx")).
-Eval vm_compute in ("<<<M266>>>" ++ check (runes_of_ascii "options
-{Packet=
-char[] }")).
-Eval vm_compute in ("<<<M2077>>>" ++ check (runes_of_ascii "MetaData A { u64 pack, } }")).
-Eval vm_compute in ("<<<M2192>>>" ++ check (runes_of_ascii "root
-    // `tick` ""quote")).
-Eval vm_compute in ("<<<M2078>>>" ++ check (runes_of_ascii "MetaData A { u64 pack, (")).
+Eval vm_compute in ("<<<M3656>>>" ++ check (runes_of_ascii "MetaData a1 {
+    // a // b
+}")).
+Eval vm_compute in ("<<<M1799>>>" ++ check (runes_of_ascii "packet
+    Pad // a // b
+{")).
+Eval vm_compute in ("<<<M2090>>>" ++ check (runes_of_ascii "MetaData A { u64 pack, }# ")).
+Eval vm_compute in ("<<<M2595>>>" ++ check (runes_of_ascii "packet A { B { u8 x, }, }")).
+Eval vm_compute in ("<<<M2594>>>" ++ check (runes_of_ascii "packet A { B { u8 x, } }")).
 Eval vm_compute in ("<<<M2071>>>" ++ check (runes_of_ascii "MetaData A { u64 pack }")).
-Eval vm_compute in ("<<<M2561>>>" ++ check (runes_of_ascii "packet A { repeat u8 }")).
-Eval vm_compute in ("<<<M3154>>>" ++ check (runes_of_ascii "// a// bpacket A {}")).
-Eval vm_compute in ("<<<M876>>>" ++ check (runes_of_ascii "// @lengthOf(
- //	t")).
-Eval vm_compute in ("<<<M2656>>>" ++ check (runes_of_ascii "options { a = b; }")).
-Eval vm_compute in ("<<<M3116>>>" ++ check (runes_of_ascii "packet A {
+Eval vm_compute in ("<<<M2079>>>" ++ check (runes_of_ascii "MetaData A { u64 pack,")).
+Eval vm_compute in ("<<<M3711>>>" ++ check (runes_of_ascii "  packet stringy
+{ }
+")).
+Eval vm_compute in ("<<<M2537>>>" ++ check (runes_of_ascii ": , ; = ( ) [ ] { }")).
+Eval vm_compute in ("<<<M997>>>" ++ check (runes_of_ascii "options {a1	=1 ;}
+")).
+Eval vm_compute in ("<<<M3106>>>" ++ check (runes_of_ascii "packet A {
 }
-// c" ++ [11]%N)).
-Eval vm_compute in ("<<<M2794>>>" ++ check (runes_of_ascii "?" ++ [65533]%N ++ runes_of_ascii "c" ++ [65533; 65533; 65533; 65533; 65533; 15; 65533; 65533]%N ++ runes_of_ascii "g" ++ [65533; 65533; 1439; 26]%N ++ runes_of_ascii "'")).
-Eval vm_compute in ("<<<M2657>>>" ++ check (runes_of_ascii "options { a 1; }")).
-Eval vm_compute in ("<<<M2083>>>" ++ check (runes_of_ascii "MetaData A { u")).
-Eval vm_compute in ("<<<M2556>>>" ++ check (runes_of_ascii """" ++ [233]%N ++ runes_of_ascii """ `" ++ [21517]%N ++ runes_of_ascii "` // " ++ [252]%N)).
-Eval vm_compute in ("<<<M1940>>>" ++ check (runes_of_ascii "
-packet	A")).
-Eval vm_compute in ("<<<M2457>>>" ++ check (runes_of_ascii "strings")).
-Eval vm_compute in ("<<<M3125>>>" ++ check (runes_of_ascii "// c 	")).
-Eval vm_compute in ("<<<M3065>>>" ++ check (runes_of_ascii "// c" ++ [12288]%N)).
-Eval vm_compute in ("<<<M2520>>>" ++ check (runes_of_ascii "`
-`")).
-Eval vm_compute in ("<<<M2529>>>" ++ check (runes_of_ascii "a-b")).
-Eval vm_compute in ("<<<M2545>>>" ++ check (runes_of_ascii "	a")).
+// c" ++ [8239]%N)).
+Eval vm_compute in ("<<<M2682>>>" ++ check (runes_of_ascii "// only a comment")).
+Eval vm_compute in ("<<<M2638>>>" ++ check (runes_of_ascii "root options { }")).
+Eval vm_compute in ("<<<M2567>>>" ++ check (runes_of_ascii "packet A { x }")).
+Eval vm_compute in ("<<<M4038>>>" ++ check (runes_of_ascii "packet o {
+}")).
+Eval vm_compute in ("<<<M2478>>>" ++ check (runes_of_ascii "@rightPad")).
+Eval vm_compute in ("<<<M2709>>>" ++ check (runes_of_ascii ") char[")).
+Eval vm_compute in ("<<<M2428>>>" ++ check (runes_of_ascii "chars")).
+Eval vm_compute in ("<<<M3105>>>" ++ check (runes_of_ascii "// c" ++ [8239]%N)).
+Eval vm_compute in ("<<<M2543>>>" ++ check (runes_of_ascii "a
+b")).
+Eval vm_compute in ("<<<M2548>>>" ++ check (runes_of_ascii "a" ++ [160]%N ++ runes_of_ascii "b")).
+Eval vm_compute in ("<<<M18>>>" ++ check (runes_of_ascii "
+")).
